@@ -1,7 +1,25 @@
 (* RoundTripProof.v — property C01 at the token level: marshalling a well-typed
    value and unmarshalling the resulting tokens into a zero value of the same
    type, with the same atlas, yields an equal value (up to what the wire cannot
-   carry), consuming exactly the tokens produced. *)
+   carry), consuming exactly the tokens produced.
+
+   The atlas may contain all four kinds of entries (stage 4):
+     struct maps; transforms of the modelled kinds 1..9 (tagged or not, also as map key
+     types, also with an untyped serial form: kind 9); keyed unions; map morphisms.
+   Hypotheses of the final theorems [token_roundtrip] / [token_roundtrip_remarshal]:
+     atlas_wf E A   the entries are well formed ([entry_wf], Part 6)
+     wt E A t v     v is a well-typed value of t
+     domb E A t v   the domain: transformed values are in [tr_dom] (where the user's
+                    backward function undoes the forward one); untyped slots hold what an
+                    untyped slot can give back ([any_ok]); a pointer or untyped slot does not
+                    hold a transformed value whose serial form is null ([null_form]); a tagged
+                    transform with an untyped serial form does not hold a value of a tagged
+                    type ([slot_untagged]: an item carries one tag only)
+     omit_ok A, rmv v   (re-marshalling only) as before.
+   Each restriction is needed: see the examples *_refuted at the end.
+   Round-trip equality [req] compares values of a transformed type through their serial
+   forms ([req_transform]); when the serial form is a scalar that is plain equality
+   ([req_transform_atom]). *)
 From Coq Require Import List ZArith Bool Lia ZifyBool ZifyNat Permutation Sorted.
 Require Import Tok GoVal Marshal FloatConv Unmarshal ObjProof.
 Import ListNotations.
@@ -188,6 +206,42 @@ Proof. induction t; cbn; try reflexivity. exact IHt. Qed.
 Lemma strip_named_not_named t i u : strip_named t <> GNamed i u.
 Proof. induction t; cbn; try discriminate. exact IHt. Qed.
 
+Section gval_ind.
+  Variable P : gval -> Prop.
+  Hypothesis Hbool : forall b, P (GVBool b).
+  Hypothesis Hnum : forall z, P (VNum z).
+  Hypothesis Hflt : forall b, P (GVFlt b).
+  Hypothesis Hstr : forall s, P (GVStr s).
+  Hypothesis Hbytes : forall o, P (VBytes o).
+  Hypothesis Hbytearr : forall s, P (VByteArr s).
+  Hypothesis Hslice_nil : P (VSlice None).
+  Hypothesis Hslice : forall l, Forall P l -> P (VSlice (Some l)).
+  Hypothesis Harr : forall l, Forall P l -> P (GVArr l).
+  Hypothesis Hmap_nil : P (GVMap None).
+  Hypothesis Hmap : forall es, Forall (fun kv => P (fst kv) /\ P (snd kv)) es -> P (GVMap (Some es)).
+  Hypothesis Hptr_nil : P (VPtr None).
+  Hypothesis Hptr : forall x, P x -> P (VPtr (Some x)).
+  Hypothesis Hany_nil : P (VAny None).
+  Hypothesis Hany : forall t x, P x -> P (VAny (Some (t, x))).
+  Hypothesis Hstruct : forall l, Forall P l -> P (VStruct l).
+  Hypothesis Hbad : P VBadV.
+
+  Fixpoint gval_ind' (v : gval) : P v.
+  Proof.
+    destruct v as [b|z|b|s|o|s|o|l|o|o|o|l|].
+    - apply Hbool. - apply Hnum. - apply Hflt. - apply Hstr. - apply Hbytes. - apply Hbytearr.
+    - destruct o as [l|]; [|apply Hslice_nil]. apply Hslice.
+      induction l as [|x l IH]; constructor; [apply gval_ind' | exact IH].
+    - apply Harr. induction l as [|x l IH]; constructor; [apply gval_ind' | exact IH].
+    - destruct o as [es|]; [|apply Hmap_nil]. apply Hmap.
+      induction es as [|[k x] es IH]; constructor; [split; apply gval_ind' | exact IH].
+    - destruct o as [x|]; [|apply Hptr_nil]. apply Hptr. apply gval_ind'.
+    - destruct o as [[t x]|]; [|apply Hany_nil]. apply Hany. apply gval_ind'.
+    - apply Hstruct. induction l as [|x l IH]; constructor; [apply gval_ind' | exact IH].
+    - apply Hbad.
+  Defined.
+End gval_ind.
+
 (* ====================================================================== *)
 (* Part 3.  Well-typed values, null-marshalling values, round-trip equality *)
 (* ====================================================================== *)
@@ -210,6 +264,11 @@ Fixpoint keys_distinct (ks : list gval) : bool :=
   | k :: r => negb (existsb (gval_key_eqb k) r) && keys_distinct r
   end.
 
+(* the key type of a map can be turned into strings: a string kind, or a struct type
+   with a transform to a string kind *)
+Definition stringer_ok (A : atlas) (kt : gtype) : bool :=
+  match map_stringer A kt with Some _ => true | None => false end.
+
 (* [wtb E A t v]: v is a well-formed value of static type t. *)
 Fixpoint wtb (E : tenv) (A : atlas) (t : gtype) (v : gval) {struct v} : bool :=
   match strip_named t, v with
@@ -226,7 +285,7 @@ Fixpoint wtb (E : tenv) (A : atlas) (t : gtype) (v : gval) {struct v} : bool :=
   | GArr n et, GVArr l => Nat.eqb (length l) n && forallb (wtb E A et) l
   | GMap _ _, GVMap None => true
   | GMap kt vt, GVMap (Some es) =>
-      is_string_kind kt &&
+      stringer_ok A kt &&
       forallb (fun kv => wtb E A kt (fst kv) && wtb E A vt (snd kv)) es &&
       keys_distinct (map fst es)
   | GPtr _, VPtr None => true
@@ -279,6 +338,14 @@ Definition blank_at (E : tenv) (fe : field_entry) (v' : gval) : Prop :=
 Definition any_num_type (k : ikind) (z : Z) : gtype :=
   if ik_signed k || (z <=? max_i64) then GNum IInt else GNum U64.
 
+Definition no_byte (c : Z) (s : bytes) : bool := negb (existsb (Z.eqb c) s).
+
+(* the values on which the backward function undoes the forward one *)
+Definition tr_dom (kind : Z) (v : gval) : bool :=
+  if kind =? 2 then match v with VStruct [GVStr a; GVStr b] => no_byte 0 a | _ => false end
+  else if kind =? 6 then match v with VStruct [GVStr a; GVStr b] => no_byte 58 a | _ => false end
+  else match tr_fwd kind v with Some _ => true | None => false end.
+
 (* round-trip equality, directed by the static type (struct fields are
    compared through the atlas entry of the struct type; struct fields that no
    entry mentions are not serialised and not compared) *)
@@ -311,7 +378,13 @@ Inductive req (E : tenv) (A : atlas) : gtype -> gval -> gval -> Prop :=
        (forall fv, traverse (fe_route fe) (VStruct fs) = Some fv -> fe_omit fe && is_empty fv = true ->
           blank_at E fe (VStruct fs')) /\
        (traverse (fe_route fe) (VStruct fs) = None -> blank_at E fe (VStruct fs'))) ->
-    req E A t (VStruct fs) (VStruct fs').
+    req E A t (VStruct fs) (VStruct fs')
+| req_transform t e kind wire v v' w w' :
+    (* values of a transformed type are compared through their serial forms *)
+    atlas_get A t = Some e -> ae_kind e = ETransform kind wire ->
+    tr_dom kind v = true -> tr_dom kind v' = true ->
+    tr_fwd kind v = Some w -> tr_fwd kind v' = Some w' -> req E A wire w w' ->
+    req E A t v v'.
 
 (* ---------- inversion / introduction lemmas for [wt] ------------------------ *)
 
@@ -996,6 +1069,243 @@ Proof.
 Qed.
 
 (* ====================================================================== *)
+(* Part 5b.  The modelled transforms: domains, inverses, typing              *)
+(* ====================================================================== *)
+
+(* ---------- the modelled transforms: domains, inverses ---------- *)
+
+Lemma split_at_spec c : forall s acc a b,
+  split_at c s acc = Some (a, b) ->
+  exists a0, a = rev acc ++ a0 /\ s = a0 ++ c :: b /\ no_byte c a0 = true.
+Proof.
+  induction s as [|x s IH]; intros acc a b H; cbn in H; [discriminate|].
+  destruct (x =? c) eqn:Hx.
+  - inversion H; subst. exists []. rewrite app_nil_r. assert (x = c) by lia. subst. auto.
+  - destruct (IH _ _ _ H) as (a0 & -> & -> & Hn). exists (x :: a0). cbn [rev]. rewrite <- app_assoc. cbn [app].
+    repeat split. unfold no_byte in *. cbn [existsb]. rewrite Z.eqb_sym, Hx. exact Hn.
+Qed.
+
+Lemma split_at_app c : forall a b acc,
+  no_byte c a = true -> split_at c (a ++ c :: b) acc = Some (rev acc ++ a, b).
+Proof.
+  induction a as [|x a IH]; intros b acc Hn; cbn.
+  - rewrite Z.eqb_refl, app_nil_r. reflexivity.
+  - unfold no_byte in Hn. cbn [existsb] in Hn. apply negb_true_iff in Hn. apply orb_false_iff in Hn.
+    destruct Hn as [Hx Hn]. rewrite Z.eqb_sym, Hx. rewrite IH by (unfold no_byte; rewrite Hn; reflexivity).
+    cbn [rev]. rewrite <- app_assoc. reflexivity.
+Qed.
+
+Ltac kind_case kind n tac :=
+  destruct (kind =? n) eqn:?;
+  [ match goal with K : (kind =? n) = true |- _ => apply Z.eqb_eq in K; subst kind end; cbn [Z.eqb Pos.eqb]
+  | tac ].
+Ltac kind_cases kind :=
+  kind_case kind 1 ltac:(kind_case kind 2 ltac:(kind_case kind 3 ltac:(kind_case kind 4 ltac:(
+  kind_case kind 5 ltac:(kind_case kind 6 ltac:(kind_case kind 7 ltac:(kind_case kind 8 ltac:(
+  kind_case kind 9 ltac:(idtac))))))))).
+
+Ltac shape H :=
+  repeat match type of H with
+         | context [match ?x with _ => _ end] => destruct x; try discriminate H
+         end.
+
+Lemma tr_bwd_fwd kind v w : tr_dom kind v = true -> tr_fwd kind v = Some w -> tr_bwd kind w = Some v.
+Proof.
+  unfold tr_dom, tr_fwd, tr_bwd. kind_cases kind; intros Hd H.
+  all: try discriminate H.
+  all: shape H.
+  all: inversion H; subst; try reflexivity.
+  - rewrite (split_at_app 0 s s0 [] Hd). reflexivity.
+  - rewrite (split_at_app 58 s s0 [] Hd). reflexivity.
+Qed.
+
+Lemma tr_fwd_bwd kind w v : tr_bwd kind w = Some v -> tr_fwd kind v = Some w /\ tr_dom kind v = true.
+Proof.
+  unfold tr_dom, tr_fwd, tr_bwd. kind_cases kind; intros H; try discriminate H.
+  all: try (shape H; inversion H; subst; split; reflexivity).
+  - destruct w; try discriminate H. destruct (split_at 0 s []) as [[a b]|] eqn:Hs; [|discriminate H].
+    inversion H; subst. destruct (split_at_spec _ _ _ _ _ Hs) as (a0 & -> & -> & Hn). cbn [rev app]. auto.
+  - destruct w; try discriminate H. destruct (split_at 58 s []) as [[a b]|] eqn:Hs; [|discriminate H].
+    inversion H; subst. destruct (split_at_spec _ _ _ _ _ Hs) as (a0 & -> & -> & Hn). cbn [rev app]. auto.
+Qed.
+
+Theorem tr_roundtrip : forall kind v w,
+  tr_dom kind v = true -> tr_fwd kind v = Some w -> tr_bwd kind w = Some v.
+Proof. exact tr_bwd_fwd. Qed.
+
+(* the forward function is injective on the domain *)
+Lemma tr_fwd_inj kind v v' w :
+  tr_dom kind v = true -> tr_dom kind v' = true -> tr_fwd kind v = Some w -> tr_fwd kind v' = Some w -> v = v'.
+Proof.
+  intros Hd Hd' H H'. apply (tr_bwd_fwd _ _ _ Hd) in H. apply (tr_bwd_fwd _ _ _ Hd') in H'. congruence.
+Qed.
+
+Lemma tr_dom_fwd kind v : tr_dom kind v = true -> exists w, tr_fwd kind v = Some w.
+Proof.
+  unfold tr_dom, tr_fwd. kind_cases kind; intros H; try discriminate H;
+    try (destruct (match v with GVStr s => _ | _ => None end); [eauto | discriminate]);
+    shape H; eauto.
+Qed.
+
+(* the values a transform accepts are strings or structs, never null-marshalling *)
+Lemma tr_fwd_not_nullish kind v w : tr_fwd kind v = Some w -> nullish v = false.
+Proof. unfold tr_fwd. kind_cases kind; intros H; try discriminate H; shape H; reflexivity. Qed.
+
+(* ---------- the Go types of the modelled transforms ---------- *)
+
+Fixpoint tys_eqb (a b : list gtype) : bool :=
+  match a, b with
+  | [], [] => true
+  | x :: a', y :: b' => gtype_eqb x y && tys_eqb a' b'
+  | _, _ => false
+  end.
+
+Lemma tys_eqb_eq a : forall b, tys_eqb a b = true -> a = b.
+Proof.
+  induction a as [|x a IH]; intros [|y b] H; cbn in H; try discriminate; [reflexivity|].
+  apply andb_true_iff in H. destruct H as [H1 H2]. apply gtype_eqb_eq in H1. apply IH in H2. congruence.
+Qed.
+
+Definition fields_are (E : tenv) (t : gtype) (ks : list gtype) : bool :=
+  match strip_named t with
+  | GStruct id => match env_fields E id with Some fts => tys_eqb (map strip_named fts) ks | None => false end
+  | _ => false
+  end.
+Definition strips_to (t k : gtype) : bool := gtype_eqb (strip_named t) k.
+
+Definition tr_types_ok (E : tenv) (kind : Z) (ty wire : gtype) : bool :=
+  if kind =? 1 then strips_to ty GStr && strips_to wire GStr
+  else if kind =? 2 then fields_are E ty [GStr; GStr] && strips_to wire GStr
+  else if kind =? 3 then fields_are E ty [GNum U8; GNum U8] && strips_to wire GBytes
+  else if kind =? 4 then fields_are E ty [GNum I64; GNum I64] &&
+       match strip_named wire with GSlice et => strips_to et (GNum I64) | _ => false end
+  else if kind =? 5 then fields_are E ty [GStr] && fields_are E wire [GStr]
+  else if kind =? 6 then fields_are E ty [GStr; GStr] && strips_to wire GStr
+  else if kind =? 7 then fields_are E ty [GStr; GNum I64] && fields_are E wire [GStr; GNum I64]
+  else if kind =? 8 then fields_are E ty [GBytes] && strips_to wire GBytes
+  else if kind =? 9 then fields_are E ty [GAny] && strips_to wire GAny
+  else false.
+
+Lemma strips_to_eq t k : strips_to t k = true -> strip_named t = k.
+Proof. apply gtype_eqb_eq. Qed.
+
+Lemma wt_strips E A t k v : strips_to t k = true -> (wt E A t v <-> wt E A k v).
+Proof.
+  intros H. apply strips_to_eq in H. rewrite <- (wt_strip E A t v), H. reflexivity.
+Qed.
+
+Lemma wt_fields_strip E A : forall fts fs,
+  wt_fields E A fts fs = wt_fields E A (map strip_named fts) fs.
+Proof.
+  induction fts as [|ft fts IH]; intros [|x fs]; cbn; try reflexivity.
+  rewrite IH. f_equal. destruct x; cbn [wtb]; rewrite strip_named_idem; reflexivity.
+Qed.
+
+Lemma wt_fields_are E A t ks v : fields_are E t ks = true ->
+  (wt E A t v <-> exists fs, v = VStruct fs /\ wt_fields E A ks fs = true).
+Proof.
+  unfold fields_are. destruct (strip_named t) eqn:Hs; try discriminate.
+  destruct (env_fields E id) as [fts|] eqn:He; [|discriminate]. intros Hq. apply tys_eqb_eq in Hq.
+  split.
+  - intros Hw. destruct (wt_struct_inv E A t v id Hw Hs) as (fts' & fs & -> & He' & Hf).
+    rewrite He in He'. inversion He'; subst fts'. exists fs. split; [reflexivity|].
+    rewrite <- Hq, <- wt_fields_strip. exact Hf.
+  - intros (fs & -> & Hf). unfold wt. rewrite wt_struct_eq, Hs, He. rewrite wt_fields_strip, Hq. exact Hf.
+Qed.
+
+Lemma bytes_ok_app a b : bytes_ok (a ++ b) = bytes_ok a && bytes_ok b.
+Proof. unfold bytes_ok. apply forallb_app. Qed.
+
+Ltac tr_ok_split H :=
+  apply andb_true_iff in H; let H1 := fresh "Hty" in let H2 := fresh "Hwi" in destruct H as [H1 H2].
+
+(* a well-typed value of the transformed type has a well-typed serial form *)
+Lemma tr_fwd_wt E A kind ty wire v w :
+  tr_types_ok E kind ty wire = true -> wt E A ty v -> tr_fwd kind v = Some w -> wt E A wire w.
+Proof.
+  unfold tr_types_ok, tr_fwd. kind_cases kind; intros Hok Hw H; try discriminate Hok; try discriminate H.
+  all: tr_ok_split Hok.
+  - (* 1 *) shape H. inversion H; subst. apply (wt_strips E A _ _ _ Hwi). apply (wt_strips E A _ _ _ Hty) in Hw.
+    unfold wt in *. cbn [wtb strip_named] in *. cbn. exact Hw.
+  - (* 2 *) shape H. inversion H; subst. apply (wt_strips E A _ _ _ Hwi).
+    apply (wt_fields_are E A _ _ _ Hty) in Hw. destruct Hw as (fs & Hq & Hf). inversion Hq; subst fs.
+    unfold wt. cbn in Hf |- *. rewrite !andb_true_r in Hf. apply andb_true_iff in Hf. destruct Hf as [Ha Hb].
+    change (bytes_ok (s ++ 0 :: s0) = true). rewrite bytes_ok_app. rewrite Ha. cbn. exact Hb.
+  - (* 3 *) shape H. inversion H; subst. apply (wt_strips E A _ _ _ Hwi).
+    apply (wt_fields_are E A _ _ _ Hty) in Hw. destruct Hw as (fs & Hq & Hf). inversion Hq; subst fs.
+    unfold wt. cbn in Hf |- *. unfold in_kind in Hf. cbn in Hf. lia.
+  - (* 4 *) shape H. inversion H; subst.
+    destruct (strip_named wire) eqn:Hsw; try discriminate Hwi.
+    apply (wt_fields_are E A _ _ _ Hty) in Hw. destruct Hw as (fs & Hq & Hf). inversion Hq; subst fs.
+    unfold wt. cbn [wtb]. rewrite Hsw. cbn [forallb]. cbn in Hf. rewrite !andb_true_r in *.
+    apply andb_true_iff in Hf. destruct Hf as [Ha Hb].
+    assert (Hx : forall z, in_kind I64 z = true -> wtb E A g (VNum z) = true).
+    { intros zz Hz. apply (wt_strips E A _ _ _ Hwi). exact Hz. }
+    rewrite (Hx _ Ha), (Hx _ Hb). reflexivity.
+  - (* 5 *) shape H. inversion H; subst.
+    apply (wt_fields_are E A _ _ _ Hty) in Hw. destruct Hw as (fs & Hq & Hf). inversion Hq; subst fs.
+    apply (wt_fields_are E A _ _ _ Hwi). eexists. split; [reflexivity | exact Hf].
+  - (* 6 *) shape H. inversion H; subst. apply (wt_strips E A _ _ _ Hwi).
+    apply (wt_fields_are E A _ _ _ Hty) in Hw. destruct Hw as (fs & Hq & Hf). inversion Hq; subst fs.
+    unfold wt. cbn in Hf |- *. rewrite !andb_true_r in Hf. apply andb_true_iff in Hf. destruct Hf as [Ha Hb].
+    change (bytes_ok (s ++ 58 :: s0) = true). rewrite bytes_ok_app. rewrite Ha. cbn. exact Hb.
+  - (* 7 *) shape H. inversion H; subst.
+    apply (wt_fields_are E A _ _ _ Hty) in Hw. destruct Hw as (fs & Hq & Hf). inversion Hq; subst fs.
+    apply (wt_fields_are E A _ _ _ Hwi). eexists. split; [reflexivity | exact Hf].
+  - (* 8 *) shape H. inversion H; subst. apply (wt_strips E A _ _ _ Hwi).
+    apply (wt_fields_are E A _ _ _ Hty) in Hw. destruct Hw as (fs & Hq & Hf). inversion Hq; subst fs.
+    unfold wt. cbn in Hf |- *. rewrite andb_true_r in Hf. exact Hf.
+  - (* 9 *) shape H. inversion H; subst. apply (wt_strips E A _ _ _ Hwi).
+    apply (wt_fields_are E A _ _ _ Hty) in Hw. destruct Hw as (fs & Hq & Hf). inversion Hq; subst fs.
+    unfold wt. cbn in Hf |- *. rewrite andb_true_r in Hf. exact Hf.
+Qed.
+
+Lemma bytes_ok_split c s a b : bytes_ok s = true -> split_at c s [] = Some (a, b) -> bytes_ok a = true /\ bytes_ok b = true.
+Proof.
+  intros Hs H. destruct (split_at_spec _ _ _ _ _ H) as (a0 & -> & -> & _). cbn [rev app].
+  rewrite bytes_ok_app in Hs. apply andb_true_iff in Hs. destruct Hs as [Ha Hb].
+  split; [exact Ha|]. cbn in Hb. apply andb_true_iff in Hb. apply Hb.
+Qed.
+
+(* what the backward function builds from a well-typed serial form is well typed *)
+Lemma tr_bwd_wt E A kind ty wire w v :
+  tr_types_ok E kind ty wire = true -> wt E A wire w -> tr_bwd kind w = Some v -> wt E A ty v.
+Proof.
+  unfold tr_types_ok, tr_bwd. kind_cases kind; intros Hok Hw H; try discriminate Hok; try discriminate H.
+  all: tr_ok_split Hok.
+  - (* 1 *) shape H. inversion H; subst. apply (wt_strips E A _ _ _ Hty). apply (wt_strips E A _ _ _ Hwi) in Hw.
+    unfold wt in *. cbn in Hw |- *. exact Hw.
+  - (* 2 *) destruct w; try discriminate H. destruct (split_at 0 s []) as [[a b]|] eqn:Hs; [|discriminate H].
+    inversion H; subst. apply (wt_strips E A _ _ _ Hwi) in Hw. unfold wt in Hw. cbn in Hw.
+    destruct (bytes_ok_split _ _ _ _ Hw Hs) as [Ha Hb].
+    apply (wt_fields_are E A _ _ _ Hty). eexists. split; [reflexivity|]. cbn. rewrite Ha, Hb. reflexivity.
+  - (* 3 *) shape H. inversion H; subst. apply (wt_strips E A _ _ _ Hwi) in Hw. unfold wt in Hw. cbn in Hw.
+    apply (wt_fields_are E A _ _ _ Hty). eexists. split; [reflexivity|]. cbn. unfold in_kind. cbn. lia.
+  - (* 4 *) shape H. inversion H; subst.
+    destruct (strip_named wire) eqn:Hsw; try discriminate Hwi.
+    unfold wt in Hw. cbn [wtb] in Hw. rewrite Hsw in Hw. cbn [forallb] in Hw. rewrite andb_true_r in Hw.
+    apply andb_true_iff in Hw. destruct Hw as [Ha Hb].
+    assert (Hx : forall zz, wtb E A g (VNum zz) = true -> in_kind I64 zz = true).
+    { intros zz Hz. apply (wt_strips E A _ _ _ Hwi) in Hz. exact Hz. }
+    apply (wt_fields_are E A _ _ _ Hty). eexists. split; [reflexivity|]. cbn.
+    change (in_kind I64 z && (in_kind I64 z0 && true) = true). rewrite (Hx _ Ha), (Hx _ Hb). reflexivity.
+  - (* 5 *) shape H. inversion H; subst.
+    apply (wt_fields_are E A _ _ _ Hwi) in Hw. destruct Hw as (fs & Hq & Hf). inversion Hq; subst fs.
+    apply (wt_fields_are E A _ _ _ Hty). eexists. split; [reflexivity | exact Hf].
+  - (* 6 *) destruct w; try discriminate H. destruct (split_at 58 s []) as [[a b]|] eqn:Hs; [|discriminate H].
+    inversion H; subst. apply (wt_strips E A _ _ _ Hwi) in Hw. unfold wt in Hw. cbn in Hw.
+    destruct (bytes_ok_split _ _ _ _ Hw Hs) as [Ha Hb].
+    apply (wt_fields_are E A _ _ _ Hty). eexists. split; [reflexivity|]. cbn. rewrite Ha, Hb. reflexivity.
+  - (* 7 *) shape H. inversion H; subst.
+    apply (wt_fields_are E A _ _ _ Hwi) in Hw. destruct Hw as (fs & Hq & Hf). inversion Hq; subst fs.
+    apply (wt_fields_are E A _ _ _ Hty). eexists. split; [reflexivity | exact Hf].
+  - (* 8 *) shape H. inversion H; subst. apply (wt_strips E A _ _ _ Hwi) in Hw. unfold wt in Hw. cbn in Hw.
+    apply (wt_fields_are E A _ _ _ Hty). eexists. split; [reflexivity|]. cbn. rewrite andb_true_r. exact Hw.
+  - (* 9 *) shape H. inversion H; subst. apply (wt_strips E A _ _ _ Hwi) in Hw. unfold wt in Hw. cbn in Hw.
+    apply (wt_fields_are E A _ _ _ Hty). eexists. split; [reflexivity|]. cbn. rewrite andb_true_r. exact Hw.
+Qed.
+
+(* ====================================================================== *)
 (* Part 6.  Atlas well-formedness; pointers; the first token of a value      *)
 (* ====================================================================== *)
 
@@ -1010,10 +1320,43 @@ Definition field_wf (E : tenv) (st : gtype) (fe : field_entry) : bool :=
   (route_okb E st (fe_route fe) (fe_type fe) && no_bad (zero_of E (fe_type fe)) &&
    Nat.ltb (length (fe_route fe)) 50).
 
-(* stage 2: struct entries only.  Every non-ignored field's route resolves in E
-   to exactly fe_type; serial names are pairwise distinct; the routes of the
-   non-ignored fields are non-empty and pairwise unrelated. *)
-Definition entry_wf (E : tenv) (e : atlas_entry) : bool :=
+(* the type's own entry, if any, is not a transform *)
+Definition not_transform_type (A : atlas) (t : gtype) : bool :=
+  match atlas_get A t with
+  | Some e' => match ae_kind e' with ETransform _ _ => false | _ => true end
+  | None => true
+  end.
+
+(* a rendering at this type starts with an untagged token, except for what an
+   untyped slot holds *)
+Definition head_plain (A : atlas) (t : gtype) : bool :=
+  is_unnamed_prim t ||
+  match atlas_get A t with
+  | Some e' => match ae_kind e', ae_tag e' with
+               | EStruct _, Some _ => false
+               | ETransform _ _, _ => false
+               | _, _ => true
+               end
+  | None => true
+  end.
+
+Definition member_wf (A : atlas) (m : bytes * gtype) : bool :=
+  match atlas_get A (snd m) with
+  | Some me => match ae_kind me with EStruct _ | ETransform _ _ => true | _ => false end
+  | None => false
+  end.
+
+(* Well-formed entries.
+   struct map: every non-ignored field's route resolves in E to exactly fe_type; serial
+     names are pairwise distinct; the routes of the non-ignored fields are non-empty and
+     pairwise unrelated.
+   transform: the Go types are those of the modelled kind; the serial type is not itself
+     a transformed type; if the entry is tagged, a rendering at the serial type starts
+     untagged (an item carries one tag only).
+   keyed union: an interface type; serial names pairwise distinct; every member type has
+     its own struct or transform entry.
+   map morphism: a map type. *)
+Definition entry_wf (E : tenv) (A : atlas) (e : atlas_entry) : bool :=
   match ae_kind e with
   | EStruct fields =>
       match strip_named (ae_type e) with GStruct _ => true | _ => false end &&
@@ -1021,10 +1364,24 @@ Definition entry_wf (E : tenv) (e : atlas_entry) : bool :=
       forallb (field_wf E (ae_type e)) fields &&
       names_distinct (map fe_name fields) &&
       routes_ok fields
-  | _ => false
+  | ETransform kind wire =>
+      tr_types_ok E kind (ae_type e) wire &&
+      negb (is_unnamed_prim (ae_type e)) &&
+      not_transform_type A wire &&
+      match ae_tag e with Some _ => head_plain A wire | None => true end
+  | EUnion members =>
+      match strip_named (ae_type e) with GIface _ => true | _ => false end &&
+      names_distinct (map fst members) &&
+      forallb (member_wf A) members
+  | EMapMorphism _ =>
+      match strip_named (ae_type e) with GMap _ _ => true | _ => false end
   end.
 
-Definition atlas_wf (E : tenv) (A : atlas) : bool := forallb (entry_wf E) (a_entries A).
+Definition atlas_wf (E : tenv) (A : atlas) : bool := forallb (entry_wf E A) (a_entries A).
+
+(* atlases of struct-map entries only (stages 2 and 3) *)
+Definition struct_only (A : atlas) : bool :=
+  forallb (fun e => match ae_kind e with EStruct _ => true | _ => false end) (a_entries A).
 
 (* types whose values never marshal as Null *)
 Definition non_nullable (t : gtype) : bool :=
@@ -1033,8 +1390,13 @@ Definition non_nullable (t : gtype) : bool :=
   | _ => true
   end.
 
-(* omitempty fields whose emptiness survives the round trip *)
-Definition omit_type_ok (t : gtype) : bool :=
+(* omitempty fields whose emptiness survives the round trip (types with a
+   transform or union entry are not considered) *)
+Definition omit_type_ok (A : atlas) (t : gtype) : bool :=
+  match atlas_get A t with
+  | Some e => match ae_kind e with EMapMorphism _ => true | _ => false end
+  | None => true
+  end &&
   match strip_named t with
   | GPtr t' => non_nullable t'
   | GAny | GIface _ | GStruct _ | GBad => false
@@ -1045,28 +1407,99 @@ Definition omit_ok (A : atlas) : bool :=
   forallb (fun e =>
      match ae_kind e with
      | EStruct fields =>
-         forallb (fun fe => fe_ignore fe || negb (fe_omit fe) || omit_type_ok (fe_type fe)) fields
+         forallb (fun fe => fe_ignore fe || negb (fe_omit fe) || omit_type_ok A (fe_type fe)) fields
      | _ => true
      end) (a_entries A).
 
 Lemma atlas_wf_entry E A t e :
-  atlas_wf E A = true -> atlas_get A t = Some e -> entry_wf E e = true /\ ae_type e = t.
+  atlas_wf E A = true -> atlas_get A t = Some e -> entry_wf E A e = true /\ ae_type e = t.
 Proof.
   intros Hwf Hg. split; [|eapply atlas_get_type; exact Hg].
   unfold atlas_wf in Hwf. rewrite forallb_forall in Hwf. apply Hwf. eapply atlas_get_In. exact Hg.
 Qed.
 
-Lemma entry_wf_struct E e :
-  entry_wf E e = true ->
-  exists fields id, ae_kind e = EStruct fields /\ strip_named (ae_type e) = GStruct id /\
+Lemma entry_wf_struct E A e fields :
+  entry_wf E A e = true -> ae_kind e = EStruct fields ->
+  exists id, strip_named (ae_type e) = GStruct id /\
     no_bad (zero_of E (ae_type e)) = true /\
     forallb (field_wf E (ae_type e)) fields = true /\
     names_distinct (map fe_name fields) = true /\ routes_ok fields = true.
 Proof.
-  unfold entry_wf. destruct (ae_kind e) as [fields| | |]; try discriminate.
-  intros H. repeat (apply andb_true_iff in H; destruct H as [H ?]).
+  unfold entry_wf. intros H Hk. rewrite Hk in H.
+  repeat (apply andb_true_iff in H; destruct H as [H ?]).
   destruct (strip_named (ae_type e)) eqn:Hs; try discriminate.
-  exists fields, id. repeat split; assumption.
+  exists id. repeat split; assumption.
+Qed.
+
+Lemma entry_wf_transform E A e kind wire :
+  entry_wf E A e = true -> ae_kind e = ETransform kind wire ->
+  tr_types_ok E kind (ae_type e) wire = true /\ is_unnamed_prim (ae_type e) = false /\
+  not_transform_type A wire = true /\
+  (forall tg, ae_tag e = Some tg -> head_plain A wire = true).
+Proof.
+  unfold entry_wf. intros H Hk. rewrite Hk in H.
+  apply andb_true_iff in H. destruct H as [H H4]. apply andb_true_iff in H. destruct H as [H H3].
+  apply andb_true_iff in H. destruct H as [H1 H2].
+  apply negb_true_iff in H2. repeat split; try assumption.
+  intros tg Ht. rewrite Ht in H4. exact H4.
+Qed.
+
+Lemma entry_wf_union E A e members :
+  entry_wf E A e = true -> ae_kind e = EUnion members ->
+  (exists i, strip_named (ae_type e) = GIface i) /\ names_distinct (map fst members) = true /\
+  forallb (member_wf A) members = true.
+Proof.
+  unfold entry_wf. intros H Hk. rewrite Hk in H.
+  repeat (apply andb_true_iff in H; destruct H as [H ?]).
+  destruct (strip_named (ae_type e)) eqn:Hs; try discriminate. eauto.
+Qed.
+
+Lemma entry_wf_morphism E A e mode :
+  entry_wf E A e = true -> ae_kind e = EMapMorphism mode ->
+  exists kt vt, strip_named (ae_type e) = GMap kt vt.
+Proof.
+  unfold entry_wf. intros H Hk. rewrite Hk in H.
+  destruct (strip_named (ae_type e)) eqn:Hs; try discriminate. eauto.
+Qed.
+
+Lemma fields_are_struct E t ks : fields_are E t ks = true -> exists id, strip_named t = GStruct id.
+Proof. unfold fields_are. destruct (strip_named t); try discriminate. eauto. Qed.
+
+Lemma tr_types_ty E kind ty wire : tr_types_ok E kind ty wire = true ->
+  strip_named ty = GStr \/ exists id, strip_named ty = GStruct id.
+Proof.
+  unfold tr_types_ok. kind_cases kind; intros H; try discriminate H; tr_ok_split H.
+  - left. apply strips_to_eq. exact Hty.
+  - right. eapply fields_are_struct; eauto.
+  - right. eapply fields_are_struct; eauto.
+  - right. eapply fields_are_struct; eauto.
+  - right. eapply fields_are_struct; eauto.
+  - right. eapply fields_are_struct; eauto.
+  - right. eapply fields_are_struct; eauto.
+  - right. eapply fields_are_struct; eauto.
+  - right. eapply fields_are_struct; eauto.
+Qed.
+
+Lemma tr_types_wire_nonptr E kind ty wire : tr_types_ok E kind ty wire = true -> forall t', wire <> GPtr t'.
+Proof.
+  unfold tr_types_ok. kind_cases kind; intros H t' ->; try discriminate H; tr_ok_split H;
+    try (unfold strips_to in Hwi; cbn in Hwi; discriminate Hwi);
+    try (unfold fields_are in Hwi; cbn in Hwi; discriminate Hwi).
+Qed.
+
+(* the type of an entry is neither an unnamed primitive nor a pointer *)
+Lemma entry_type_shape E A e : entry_wf E A e = true ->
+  is_unnamed_prim (ae_type e) = false /\ (forall t', ae_type e <> GPtr t').
+Proof.
+  intros H. destruct (ae_kind e) as [fields|kind wire|members|mode] eqn:Hk.
+  - destruct (entry_wf_struct E A e fields H Hk) as (id & Hs & _).
+    split; [destruct (ae_type e); try reflexivity; discriminate Hs | intros t' Hc; rewrite Hc in Hs; discriminate Hs].
+  - destruct (entry_wf_transform E A e kind wire H Hk) as (Hty & Hup & _). split; [exact Hup|].
+    intros t' Hc. destruct (tr_types_ty E kind _ wire Hty) as [Hs | [id Hs]]; rewrite Hc in Hs; discriminate Hs.
+  - destruct (entry_wf_union E A e members H Hk) as ([i Hs] & _).
+    split; [destruct (ae_type e); try reflexivity; discriminate Hs | intros t' Hc; rewrite Hc in Hs; discriminate Hs].
+  - destruct (entry_wf_morphism E A e mode H Hk) as (kt & vt & Hs).
+    split; [destruct (ae_type e); try reflexivity; discriminate Hs | intros t' Hc; rewrite Hc in Hs; discriminate Hs].
 Qed.
 
 (* ---------- pointers ------------------------------------------------------------- *)
@@ -1085,6 +1518,15 @@ Proof.
   intros t base H. destruct t; cbn in H; try (inversion H; reflexivity).
   destruct (peel t); discriminate.
 Qed.
+
+Lemma peel_S_ptr t n base : peel t = (S n, base) -> exists t', t = GPtr t'.
+Proof. destruct t; cbn; intros H; try discriminate. eauto. Qed.
+
+Lemma peel_nonptr t : (forall t', t <> GPtr t') -> peel t = (O, t).
+Proof. intros H. destruct t; try reflexivity. exfalso. eapply H. reflexivity. Qed.
+
+Lemma deref_wrap n : forall v, deref n (wrap_ptrs n v) = Some v.
+Proof. induction n; intros v; cbn; auto. Qed.
 
 Lemma nullish_wrap n : forall v, nullish (wrap_ptrs n v) = nullish v.
 Proof. induction n; intros v; cbn; auto. Qed.
@@ -1135,98 +1577,89 @@ Proof.
   apply req_ptr. apply IHt with (base := snd (peel t)); [apply surjective_pairing | exact Hr].
 Qed.
 
-(* ---------- the first token -------------------------------------------------------- *)
-
-Definition vstart (v : tokv) : bool := match v with ArrClose | MapClose => false | _ => true end.
-
-Lemma marshal_starts A f t v ts :
-  marshal A f t v = MOk ts -> exists tk tg r, ts = Tok tk tg :: r /\ vstart tk = true.
-Proof.
-  intros H. destruct (marshal_wf A f t v ts H) as (n & Hn & _). subst ts.
-  destruct n as [tg x]. destruct x; cbn; eexists _, _, _; split; reflexivity.
-Qed.
-
-Section NullFirst.
-  Variable E : tenv.
-  Variable A : atlas.
-  Hypothesis Hwf : atlas_wf E A = true.
-
-  Definition nf_res (v : gval) (ts : list token) : Prop :=
-    forall tg r, ts = Tok Null tg :: r -> r = [] /\ tg = None /\ nullish v = true.
-
-  Definition nf_all (f : nat) : Prop :=
-    (forall t v ts, wt E A t v -> marshal A f t v = MOk ts -> nf_res v ts) /\
-    (forall t v ts, wt E A t v -> marshal_bare A f t v = MOk ts -> nf_res v ts) /\
-    (forall t v ts, wt E A t v -> marshal_kind A f t v = MOk ts -> nf_res v ts).
-
-  Lemma nf_zero : nf_all 0.
-  Proof. split; [|split]; intros; discriminate. Qed.
-
-  Lemma nf_step f : nf_all f -> nf_all (S f).
-  Proof.
-    intros (Hm & Hb & Hk). split; [|split].
-    - intros t v ts Hw H. rewrite marshal_S in H. destruct (peel t) as [n base] eqn:Hp.
-      destruct (peel_deref_wt E A t v n base Hp Hw) as [(Hd & Hn & _) | (bv & Hd & Hwb & Hv)]; rewrite Hd in H.
-      + inversion H; subst. intros tg r Hq. inversion Hq; subst. auto.
-      + intros tg r Hq. destruct (Hb base bv ts Hwb H tg r Hq) as (H1 & H2 & H3).
-        repeat split; auto. rewrite Hv, nullish_wrap. exact H3.
-    - intros t v ts Hw H. rewrite marshal_bare_S in H.
-      destruct (is_unnamed_prim t); [eapply Hk; eassumption|].
-      destruct (atlas_get A t) as [e|] eqn:Hg.
-      + destruct (atlas_wf_entry E A t e Hwf Hg) as [He _].
-        destruct (entry_wf_struct E e He) as (fields & id & Hkd & _).
-        destruct f as [|f']; [discriminate|]. rewrite marshal_entry_S, Hkd in H. cbv zeta in H.
-        apply mprepend_ok in H. destruct H as (ts' & _ & Hts). subst ts.
-        intros tg r Hq. discriminate.
-      + eapply Hk; [|exact H]. apply wt_strip. exact Hw.
-    - intros t v ts Hw H. rewrite marshal_kind_S in H. intros tg r Hq. subst ts.
-      destruct t; destruct v; try discriminate;
-        try (destruct o as [x|]; try discriminate);
-        try (inversion H; subst; auto; fail);
-        try (destruct (ik_signed k); discriminate);
-        try (apply mprepend_ok in H; destruct H as (ts' & _ & Hts); discriminate).
-      + (* map *)
-        destruct f as [|f']; [discriminate|]. rewrite marshal_map_S in H.
-        destruct (map_stringer A t1); [|discriminate]. cbv zeta in H.
-        destruct (existsb _ _); [discriminate|].
-        apply mprepend_ok in H; destruct H as (ts' & _ & Hts); discriminate.
-      + destruct f as [|f']; [discriminate|]. rewrite marshal_map_S in H.
-        destruct (map_stringer A t1); [|discriminate]. cbv zeta in H.
-        destruct (existsb _ _); [discriminate|]. inversion H; subst. auto.
-      + destruct x as [dt dv]. cbn [nullish]. exact (Hm dt dv _ Hw H tg r eq_refl).
-      + destruct x as [dt dv]. cbn [nullish]. exact (Hm dt dv _ Hw H tg r eq_refl).
-  Qed.
-
-  Lemma nf_all_holds f : nf_all f.
-  Proof. induction f; [apply nf_zero | apply nf_step; assumption]. Qed.
-
-  Lemma marshal_bare_null f t v tg r :
-    wt E A t v -> marshal_bare A f t v = MOk (Tok Null tg :: r) -> r = [] /\ tg = None /\ nullish v = true.
-  Proof. intros Hw H. destruct (nf_all_holds f) as (_ & Hb & _). eapply Hb; eauto. Qed.
-End NullFirst.
-
-
 (* ====================================================================== *)
 (* Part 6b.  The domain: what untyped slots may hold; native values          *)
 (* ====================================================================== *)
 
-(* dynamic types an untyped slot gives back (up to the integer/float width), or
-   a tagged atlas type, which is reconstructed through its tag *)
-Definition any_ok (A : atlas) (dt : gtype) : bool :=
-  match dt with
-  | GBool | GNum _ | GF32 | GF64 | GStr | GBytes | GByteArr _ => true
-  | GSlice GAny => true
-  | GMap GStr GAny => true
-  | _ =>
-      match atlas_get A dt with
+(* dynamic types an untyped slot gives back by itself (up to the integer/float width) *)
+Definition native_slot (A : atlas) (dt : gtype) : bool :=
+  is_unnamed_prim dt ||
+  match atlas_get A dt with
+  | Some _ => false
+  | None => match dt with GByteArr _ | GSlice GAny | GMap GStr GAny => true | _ => false end
+  end.
+
+(* a tagged struct or transform type, which is reconstructed through its tag *)
+Definition tagged_slot (A : atlas) (dt : gtype) : bool :=
+  negb (is_unnamed_prim dt) &&
+  match atlas_get A dt with
+  | Some e =>
+      match ae_kind e, ae_tag e with
+      | EStruct _, Some tg | ETransform _ _, Some tg =>
+          match atlas_by_tag A tg with Some e' => gtype_eqb (ae_type e') dt | None => false end
+      | _, _ => false
+      end
+  | None => false
+  end.
+
+Definition any_ok (A : atlas) (dt : gtype) : bool := native_slot A dt || tagged_slot A dt.
+
+(* v (behind the pointers of t) is of a transformed type and its serial form marshals as
+   Null: a pointer to it, or an untyped slot holding it, would come back nil *)
+Definition null_form (A : atlas) (t : gtype) (v : gval) : bool :=
+  let '(n, base) := peel t in
+  match deref n v with
+  | Some bv =>
+      match atlas_get A base with
       | Some e =>
-          match ae_tag e with
-          | Some tg => match atlas_by_tag A tg with Some e' => gtype_eqb (ae_type e') dt | None => false end
-          | None => false
+          match ae_kind e with
+          | ETransform kind _ => match tr_fwd kind bv with Some w => nullish w | None => false end
+          | _ => false
           end
       | None => false
       end
+  | None => false
   end.
+
+(* the content of an untyped serial form that starts with an untagged token *)
+Definition slot_untagged (A : atlas) (w : gval) : bool :=
+  match w with VAny (Some (dt, dv)) => nullish dv || native_slot A dt | _ => true end.
+
+(* a value of a transformed type: in the domain of the transform; if the entry is tagged
+   and the serial form is an untyped value, that value is not of a tagged type *)
+Definition dom_entry (A : atlas) (t : gtype) (v : gval) : bool :=
+  match atlas_get A t with
+  | Some e =>
+      match ae_kind e with
+      | ETransform kind wire =>
+          tr_dom kind v &&
+          match ae_tag e, tr_fwd kind v with
+          | Some _, Some w => slot_untagged A w
+          | _, _ => true
+          end
+      | _ => true
+      end
+  | None => true
+  end.
+
+Definition is_union (A : atlas) (t : gtype) : bool :=
+  match atlas_get A t with
+  | Some e => match ae_kind e with EUnion _ => true | _ => false end
+  | None => false
+  end.
+
+(* what an interface value may hold: anything (of the member types) in a keyed union;
+   in an untyped slot nil, a null-marshalling value, or a value of an [any_ok] type *)
+Definition slot_ok (A : atlas) (t dt : gtype) (dv : gval) : bool :=
+  is_union A t || ((nullish dv || any_ok A dt) && negb (null_form A dt dv)).
+
+(* map keys of a transformed struct type are in the domain of the transform *)
+Definition key_dom (A : atlas) (kt : gtype) (k : gval) : bool :=
+  if is_string_kind kt then true
+  else match atlas_get A kt with
+       | Some e => match ae_kind e with ETransform kind _ => tr_dom kind k | _ => true end
+       | None => true
+       end.
 
 Fixpoint dom_fields (d : gtype -> gval -> bool) (fts : list gtype) (fs : list gval) : bool :=
   match fts, fs with
@@ -1234,16 +1667,16 @@ Fixpoint dom_fields (d : gtype -> gval -> bool) (fts : list gtype) (fs : list gv
   | _, _ => true
   end.
 
-(* [domb E A t v]: every interface value inside v (following the static types)
-   holds nil, a null-marshalling value, or a value of an [any_ok] dynamic type *)
+(* [domb E A t v]: the domain of the round-trip theorems, following the static types *)
 Fixpoint domb (E : tenv) (A : atlas) (t : gtype) (v : gval) {struct v} : bool :=
+  dom_entry A t v &&
   match strip_named t, v with
   | GSlice et, VSlice (Some l) => forallb (domb E A et) l
   | GArr _ et, GVArr l => forallb (domb E A et) l
-  | GMap _ vt, GVMap (Some es) => forallb (fun kv => domb E A vt (snd kv)) es
-  | GPtr t', VPtr (Some x) => domb E A t' x
-  | GAny, VAny (Some (dt, dv)) => domb E A dt dv && (nullish dv || any_ok A dt)
-  | GIface _, VAny (Some (dt, dv)) => domb E A dt dv && (nullish dv || any_ok A dt)
+  | GMap kt vt, GVMap (Some es) => forallb (fun kv => key_dom A kt (fst kv) && domb E A vt (snd kv)) es
+  | GPtr t', VPtr (Some x) => domb E A t' x && negb (null_form A t' x)
+  | GAny, VAny (Some (dt, dv)) => domb E A dt dv && slot_ok A t dt dv
+  | GIface _, VAny (Some (dt, dv)) => domb E A dt dv && slot_ok A t dt dv
   | GStruct id, VStruct fs =>
       match env_fields E id with
       | Some fts =>
@@ -1257,14 +1690,18 @@ Fixpoint domb (E : tenv) (A : atlas) (t : gtype) (v : gval) {struct v} : bool :=
   | _, _ => true
   end.
 
+Lemma domb_entry E A t v : domb E A t v = true -> dom_entry A t v = true.
+Proof. destruct v; cbn [domb]; intros H; apply andb_true_iff in H; apply H. Qed.
+
 Lemma dom_struct_eq E A t fs :
   domb E A t (VStruct fs) =
+  dom_entry A t (VStruct fs) &&
   match strip_named t with
   | GStruct id => match env_fields E id with Some fts => dom_fields (domb E A) fts fs | None => true end
   | _ => true
   end.
 Proof.
-  cbn [domb]. destruct (strip_named t); try reflexivity.
+  cbn [domb]. f_equal. destruct (strip_named t); try reflexivity.
   destruct (env_fields E id) as [fts|]; [|reflexivity].
   revert fts. induction fs as [|x fs IH]; intros [|ft fts]; cbn; try reflexivity.
   rewrite IH. reflexivity.
@@ -1280,8 +1717,13 @@ Proof.
 Qed.
 
 Lemma sview_dom E A t v st fs w so :
-  sview E t v st fs w so -> so <> None -> domb E A t v = domb E A st (VStruct fs).
-Proof. intros H Hn. destruct H; subst; try reflexivity. contradiction Hn; reflexivity. Qed.
+  sview E t v st fs w so -> so <> None -> domb E A t v = true -> domb E A st (VStruct fs) = true.
+Proof.
+  intros H Hn Hd. destruct H; subst; try exact Hd.
+  - cbn [domb strip_named] in Hd. apply andb_true_iff in Hd. destruct Hd as [_ Hd].
+    apply andb_true_iff in Hd. apply Hd.
+  - contradiction Hn; reflexivity.
+Qed.
 
 (* what a route reaches in a value of the domain is in the domain *)
 Lemma traverse_dom E A : forall r t v ft x,
@@ -1296,19 +1738,42 @@ Proof.
     rewrite (sview_so E t v st fs w _ fs' Hv eq_refl) in *.
     destruct (nth_error fs i) as [fv|] eqn:Hfv; [|discriminate].
     assert (Hds : domb E A st (VStruct fs) = true).
-    { rewrite <- (sview_dom E A t v st fs w _ Hv); [exact Hd | discriminate]. }
-    rewrite dom_struct_eq, Hs, He in Hds.
+    { apply (sview_dom E A t v st fs w _ Hv); [discriminate | exact Hd]. }
+    rewrite dom_struct_eq, Hs, He in Hds. apply andb_true_iff in Hds. destruct Hds as [_ Hds].
     eapply IH; [| | exact Hr' | exact Ht].
     + eapply wt_fields_nth; eassumption.
     + eapply dom_fields_nth; eassumption.
 Qed.
 
-Lemma dom_wrap E A : forall t n base bv,
-  peel t = (n, base) -> domb E A t (wrap_ptrs n bv) = domb E A base bv.
+Lemma null_form_base A base bv : peel base = (O, base) ->
+  null_form A base bv =
+  match atlas_get A base with
+  | Some e => match ae_kind e with
+              | ETransform kind _ => match tr_fwd kind bv with Some w => nullish w | None => false end
+              | _ => false
+              end
+  | None => false
+  end.
+Proof. intros Hp. unfold null_form. rewrite Hp. reflexivity. Qed.
+
+Lemma null_form_wrap A : forall t n base bv,
+  peel t = (n, base) -> null_form A t (wrap_ptrs n bv) = null_form A base bv.
 Proof.
-  induction t; intros pn base bv Hp; try (cbn in Hp; inversion Hp; subst; reflexivity).
-  rewrite peel_ptr in Hp. inversion Hp; subst. clear Hp. cbn [wrap_ptrs domb strip_named].
-  apply IHt. apply surjective_pairing.
+  intros t n base bv Hp. unfold null_form. rewrite Hp.
+  rewrite (peel_nonptr base (peel_base_not_ptr t n base Hp)). rewrite deref_wrap. reflexivity.
+Qed.
+
+(* the value behind the pointers is in the domain, and is not a null form *)
+Lemma dom_wrap E A : forall t n base bv,
+  peel t = (n, base) -> domb E A t (wrap_ptrs n bv) = true ->
+  domb E A base bv = true /\ (n <> O -> null_form A base bv = false).
+Proof.
+  induction t; intros pn base bv Hp Hd; try (cbn in Hp; inversion Hp; subst; split; [exact Hd | intros Hc; contradiction Hc; reflexivity]).
+  rewrite peel_ptr in Hp. inversion Hp; subst. clear Hp. cbn [wrap_ptrs domb strip_named] in Hd.
+  apply andb_true_iff in Hd. destruct Hd as [_ Hd]. apply andb_true_iff in Hd. destruct Hd as [Hd Hn].
+  destruct (IHt (fst (peel t)) (snd (peel t)) bv (surjective_pairing _) Hd) as [Hb _].
+  split; [exact Hb|]. intros _. apply negb_true_iff in Hn.
+  rewrite (null_form_wrap A t (fst (peel t)) (snd (peel t)) bv (surjective_pairing _)) in Hn. exact Hn.
 Qed.
 
 (* values that marshal to the same tokens again after a round trip: integers in
@@ -1349,6 +1814,171 @@ Proof.
     rewrite forallb_forall in Hfs. apply Hfs. eapply nth_error_In. exact Hn.
 Qed.
 
+Lemma tr_fwd_rmv kind v w : tr_fwd kind v = Some w -> rmv v = true -> rmv w = true.
+Proof.
+  unfold tr_fwd. kind_cases kind; intros H; try discriminate H; shape H; inversion H; subst; try reflexivity.
+  cbn [rmv forallb]. rewrite andb_true_r. auto.
+Qed.
+
+
+(* ---------- the first token -------------------------------------------------------- *)
+
+Definition vstart (v : tokv) : bool := match v with ArrClose | MapClose => false | _ => true end.
+
+Lemma marshal_starts A f t v ts :
+  marshal A f t v = MOk ts -> exists tk tg r, ts = Tok tk tg :: r /\ vstart tk = true.
+Proof.
+  intros H. destruct (marshal_wf A f t v ts H) as (n & Hn & _). subst ts.
+  destruct n as [tg x]. destruct x; cbn; eexists _, _, _; split; reflexivity.
+Qed.
+
+(* the input side of the round trip: well typed and in the domain *)
+Definition okd (E : tenv) (A : atlas) (t : gtype) (v : gval) : Prop := wt E A t v /\ domb E A t v = true.
+
+(* the atlas is not consulted for t *)
+Definition noentry (A : atlas) (t : gtype) : Prop := is_unnamed_prim t = true \/ atlas_get A t = None.
+
+Lemma tr_types_kind1 E kind ty wire : tr_types_ok E kind ty wire = true ->
+  (kind = 1 /\ strip_named ty = GStr) \/ (kind <> 1 /\ exists id, strip_named ty = GStruct id).
+Proof.
+  unfold tr_types_ok. kind_cases kind; intros H; try discriminate H; tr_ok_split H;
+    try (right; split; [discriminate | eapply fields_are_struct; eauto]).
+  left. split; [reflexivity | apply strips_to_eq; exact Hty].
+Qed.
+
+Section WfFacts.
+  Variable E : tenv.
+  Variable A : atlas.
+  Hypothesis Hwf : atlas_wf E A = true.
+
+  (* the types that have entries *)
+  Lemma entry_shape t e : atlas_get A t = Some e ->
+    match ae_kind e with
+    | EStruct _ => exists id, strip_named t = GStruct id
+    | ETransform k _ => (k = 1 /\ strip_named t = GStr) \/ (k <> 1 /\ exists id, strip_named t = GStruct id)
+    | EUnion _ => exists i, strip_named t = GIface i
+    | EMapMorphism _ => exists kt vt, strip_named t = GMap kt vt
+    end.
+  Proof.
+    intros Hg. destruct (atlas_wf_entry E A t e Hwf Hg) as [He Het]. rewrite <- Het.
+    destruct (ae_kind e) as [fields|kind wire|members|mode] eqn:Hk.
+    - destruct (entry_wf_struct E A e fields He Hk) as (id & Hs & _). eauto.
+    - destruct (entry_wf_transform E A e kind wire He Hk) as (Hty & _). eapply tr_types_kind1. exact Hty.
+    - destruct (entry_wf_union E A e members He Hk) as (Hs & _). exact Hs.
+    - eapply entry_wf_morphism; eauto.
+  Qed.
+
+  Lemma get_none_shape t :
+    (forall id, strip_named t <> GStruct id) -> strip_named t <> GStr ->
+    (forall i, strip_named t <> GIface i) -> (forall kt vt, strip_named t <> GMap kt vt) ->
+    atlas_get A t = None.
+  Proof.
+    intros H1 H2 H3 H4. destruct (atlas_get A t) as [e|] eqn:Hg; [|reflexivity].
+    pose proof (entry_shape t e Hg) as Hsh. destruct (ae_kind e).
+    - destruct Hsh as [id Hs]. exfalso. eapply H1; eauto.
+    - destruct Hsh as [[_ Hs] | [_ [id Hs]]]; exfalso; [apply H2; exact Hs | eapply H1; eauto].
+    - destruct Hsh as [i Hs]. exfalso. eapply H3; eauto.
+    - destruct Hsh as (kt & vt & Hs). exfalso. eapply H4; eauto.
+  Qed.
+
+  Lemma dom_entry_other t v :
+    (forall id, strip_named t <> GStruct id) -> strip_named t <> GStr -> dom_entry A t v = true.
+  Proof.
+    intros H1 H2. unfold dom_entry. destruct (atlas_get A t) as [e|] eqn:Hg; [|reflexivity].
+    pose proof (entry_shape t e Hg) as Hsh. destruct (ae_kind e); try reflexivity.
+    destruct Hsh as [[_ Hs] | [_ [id Hs]]]; exfalso; [apply H2; exact Hs | eapply H1; eauto].
+  Qed.
+
+  Lemma dom_entry_str t s : strip_named t = GStr -> dom_entry A t (GVStr s) = true.
+  Proof.
+    intros Hs. unfold dom_entry. destruct (atlas_get A t) as [e|] eqn:Hg; [|reflexivity].
+    pose proof (entry_shape t e Hg) as Hsh. destruct (ae_kind e) as [|kind wire| |]; try reflexivity.
+    destruct Hsh as [[-> _] | [_ [id Hs']]]; [|rewrite Hs in Hs'; discriminate].
+    cbn. destruct (ae_tag e); reflexivity.
+  Qed.
+
+  Lemma is_union_iface t : is_union A t = true -> exists i, strip_named t = GIface i.
+  Proof.
+    unfold is_union. destruct (atlas_get A t) as [e|] eqn:Hg; [|discriminate].
+    pose proof (entry_shape t e Hg) as Hsh. destruct (ae_kind e); try discriminate. intros _. exact Hsh.
+  Qed.
+
+  Lemma not_union_any t : strip_named t = GAny -> is_union A t = false.
+  Proof.
+    intros Hs. destruct (is_union A t) eqn:Hu; [|reflexivity].
+    destruct (is_union_iface t Hu) as [i Hi]. rewrite Hs in Hi. discriminate.
+  Qed.
+
+  (* the serial form of a value of the domain is in the domain of the serial type *)
+  Lemma tr_fwd_dom e kind wire v w :
+    atlas_get A (ae_type e) = Some e -> ae_kind e = ETransform kind wire ->
+    okd E A (ae_type e) v -> tr_fwd kind v = Some w -> okd E A wire w.
+  Proof.
+    intros Hg Hk [Hw Hd] Hf.
+    destruct (atlas_wf_entry E A _ e Hwf Hg) as [He _].
+    destruct (entry_wf_transform E A e kind wire He Hk) as (Hty & Hup & Hnt & _).
+    split; [eapply tr_fwd_wt; eassumption|].
+    assert (Hde : forall x, dom_entry A wire x = true).
+    { intros x. unfold dom_entry. unfold not_transform_type in Hnt.
+      destruct (atlas_get A wire) as [e'|]; [|reflexivity]. destruct (ae_kind e'); try reflexivity. discriminate Hnt. }
+    revert Hf Hty. unfold tr_types_ok, tr_fwd. kind_cases kind; intros Hf Hty; try discriminate Hty; try discriminate Hf.
+    all: tr_ok_split Hty; shape Hf; inversion Hf; subst w.
+    - (* 1 *) cbn [domb]. rewrite Hde. destruct (strip_named wire); reflexivity.
+    - (* 2 *) cbn [domb]. rewrite Hde. destruct (strip_named wire); reflexivity.
+    - (* 3 *) cbn [domb]. rewrite Hde. destruct (strip_named wire); reflexivity.
+    - (* 4 *) cbn [domb]. rewrite Hde. destruct (strip_named wire) eqn:Hsw; try discriminate Hwi.
+      apply strips_to_eq in Hwi. cbn [forallb domb].
+      rewrite !dom_entry_other by (rewrite Hwi; discriminate). rewrite Hwi. reflexivity.
+    - (* 5 *) rewrite dom_struct_eq, Hde. cbn [andb]. unfold fields_are in Hwi.
+      destruct (strip_named wire); try discriminate Hwi. destruct (env_fields E id) as [fts|]; [|reflexivity].
+      apply tys_eqb_eq in Hwi. destruct fts as [|tw [|? ?]]; try discriminate Hwi. inversion Hwi as [Hq].
+      cbn [dom_fields domb]. rewrite (dom_entry_str tw s Hq), Hq. reflexivity.
+    - (* 6 *) cbn [domb]. rewrite Hde. destruct (strip_named wire); reflexivity.
+    - (* 7 *) rewrite dom_struct_eq, Hde. cbn [andb]. unfold fields_are in Hwi.
+      destruct (strip_named wire); try discriminate Hwi. destruct (env_fields E id) as [fts|]; [|reflexivity].
+      apply tys_eqb_eq in Hwi. destruct fts as [|tk [|tn [|? ?]]]; try discriminate Hwi. inversion Hwi as [[Hq1 Hq2]].
+      cbn [dom_fields domb]. rewrite (dom_entry_str tk s Hq1), Hq1.
+      rewrite dom_entry_other by (rewrite Hq2; discriminate). rewrite Hq2. reflexivity.
+    - (* 8 *) cbn [domb]. rewrite Hde. destruct (strip_named wire); reflexivity.
+    - (* 9 *) rewrite dom_struct_eq in Hd. apply andb_true_iff in Hd. destruct Hd as [_ Hd].
+      unfold fields_are in Hty0. destruct (strip_named (ae_type e)); try discriminate Hty0.
+      destruct (env_fields E id) as [fts|]; [|discriminate Hty0].
+      apply tys_eqb_eq in Hty0. destruct fts as [|ta [|? ?]]; try discriminate Hty0. inversion Hty0 as [Hq].
+      cbn [dom_fields] in Hd. rewrite andb_true_r in Hd. apply strips_to_eq in Hwi.
+      destruct o as [[dt dv]|].
+      + cbn [domb] in Hd |- *. rewrite Hq in Hd. rewrite Hwi, Hde. cbn [andb].
+        apply andb_true_iff in Hd. destruct Hd as [_ Hd]. unfold slot_ok in *.
+        rewrite (not_union_any ta Hq) in Hd. rewrite (not_union_any wire Hwi). exact Hd.
+      + cbn [domb]. rewrite Hde, Hwi. reflexivity.
+  Qed.
+End WfFacts.
+
+Lemma unnamed_prim_primk0 t : is_unnamed_prim t = true -> strip_named t = t.
+Proof. destruct t; cbn; intros H; try discriminate; reflexivity. Qed.
+
+Lemma find_member_type (members : list (bytes * gtype)) mt name mt0 :
+  find (fun m => gtype_eqb (snd m) mt) members = Some (name, mt0) -> mt0 = mt /\ In (name, mt) members.
+Proof.
+  intros H. pose proof (find_some _ _ H) as [Hin Hq]. cbn in Hq. apply gtype_eqb_eq in Hq. subst. auto.
+Qed.
+
+Lemma marshal_map_nil A f mode kt vt ts :
+  marshal_map A f mode kt vt None = MOk ts -> ts = [Tok Null None].
+Proof.
+  destruct f as [|f']; [discriminate|]. rewrite marshal_map_S.
+  destruct (map_stringer A kt); [|discriminate]. cbv zeta.
+  destruct (existsb _ _); [discriminate|]. intros H; inversion H. reflexivity.
+Qed.
+
+Lemma marshal_map_some_head A f mode kt vt es ts :
+  marshal_map A f mode kt vt (Some es) = MOk ts -> exists d r, ts = Tok (MapOpen d) None :: r.
+Proof.
+  destruct f as [|f']; [discriminate|]. rewrite marshal_map_S.
+  destruct (map_stringer A kt); [|discriminate]. cbv zeta.
+  destruct (existsb _ _); [discriminate|]. intros H. apply mprepend_ok in H. destruct H as (ts' & _ & ->).
+  cbn [app]. eauto.
+Qed.
+
 (* ---------- null-marshalling values marshal as one Null ------------------------- *)
 
 Section NullOnly.
@@ -1361,6 +1991,19 @@ Section NullOnly.
     (forall t v ts, wt E A t v -> nullish v = true -> marshal_bare A f t v = MOk ts -> ts = [Tok Null None]) /\
     (forall t v ts, wt E A t v -> nullish v = true -> marshal_kind A f t v = MOk ts -> ts = [Tok Null None]).
 
+  (* a value of a type with a struct or transform entry is a struct or a string *)
+  Lemma entry_value_not_nullish t e v :
+    atlas_get A t = Some e -> match ae_kind e with EStruct _ | ETransform _ _ => True | _ => False end ->
+    wt E A t v -> nullish v = false.
+  Proof.
+    intros Hg Hk Hw. pose proof (entry_shape E A Hwf t e Hg) as Hsh.
+    assert (Hs : strip_named t = GStr \/ exists id, strip_named t = GStruct id).
+    { destruct (ae_kind e); try contradiction; [right; exact Hsh|].
+      destruct Hsh as [[_ Hs] | [_ Hs]]; auto. }
+    unfold wt in Hw. destruct Hs as [Hs | [id Hs]]; destruct v; cbn [wtb] in Hw; rewrite Hs in Hw;
+      try discriminate Hw; reflexivity.
+  Qed.
+
   Lemma nn_step f : nn_all f -> nn_all (S f).
   Proof.
     intros (Hm & Hb & Hk). split; [|split].
@@ -1372,16 +2015,27 @@ Section NullOnly.
       destruct (is_unnamed_prim t); [eapply Hk; eassumption|].
       destruct (atlas_get A t) as [e|] eqn:Hg.
       + destruct (atlas_wf_entry E A t e Hwf Hg) as [He Het].
-        destruct (entry_wf_struct E e He) as (fields & id & _ & Hs & _).
-        rewrite Het in Hs. destruct (wt_struct_inv E A t v id Hw Hs) as (fts & fs & Hv & _). subst v. discriminate.
+        destruct f as [|f']; [discriminate|]. rewrite marshal_entry_S in H.
+        destruct (ae_kind e) as [fields|kind wire|members|mode] eqn:Hkd.
+        * rewrite (entry_value_not_nullish t e v Hg) in Hn; [discriminate | rewrite Hkd; exact I | exact Hw].
+        * rewrite (entry_value_not_nullish t e v Hg) in Hn; [discriminate | rewrite Hkd; exact I | exact Hw].
+        * destruct v; try discriminate H. destruct o as [[mt mv]|]; [|discriminate H].
+          destruct (find _ members) as [[name mt0]|] eqn:Hfd; [|discriminate H].
+          destruct (find_member_type _ _ _ _ Hfd) as [-> Hin].
+          destruct (entry_wf_union E A e members He Hkd) as (_ & _ & Hmw).
+          rewrite forallb_forall in Hmw. specialize (Hmw _ Hin). unfold member_wf in Hmw. cbn [snd] in Hmw.
+          destruct (atlas_get A mt) as [me|] eqn:Hgm; [|discriminate Hmw].
+          pose proof (entry_shape E A Hwf (ae_type e) e) as Hsh. rewrite Het, Hkd in Hsh. destruct (Hsh Hg) as [i Hi].
+          unfold wt in Hw. cbn [wtb] in Hw. rewrite Hi in Hw. cbn [nullish] in Hn.
+          rewrite (entry_value_not_nullish mt me mv Hgm) in Hn; [discriminate | | exact Hw].
+          destruct (ae_kind me); try exact I; discriminate Hmw.
+        * destruct (strip_named (ae_type e)); try discriminate H. destruct v; try discriminate H.
+          destruct o as [es|]; [discriminate Hn|]. eapply marshal_map_nil. exact H.
       + eapply Hk; [apply wt_strip; exact Hw | exact Hn | exact H].
     - intros t v ts Hw Hn H. rewrite marshal_kind_S in H.
       destruct v; try discriminate Hn; destruct o as [x|]; try discriminate Hn;
         destruct t; try discriminate H; try (inversion H; reflexivity).
-      + (* nil map *)
-        destruct f as [|f']; [discriminate|]. rewrite marshal_map_S in H.
-        destruct (map_stringer A t1); [|discriminate]. cbv zeta in H.
-        destruct (existsb _ _); [discriminate|]. inversion H. reflexivity.
+      + eapply marshal_map_nil. exact H.
       + destruct x as [dt dv]. exact (Hm dt dv ts Hw Hn H).
       + destruct x as [dt dv]. exact (Hm dt dv ts Hw Hn H).
   Qed.
@@ -1397,20 +2051,106 @@ Section NullOnly.
   Proof. intros Hw Hn H. destruct (nn_all_holds f) as (Hm & _). eapply Hm; eauto. Qed.
 End NullOnly.
 
-(* struct entries only: only struct types have entries (stage 2/3 atlases) *)
-Lemma atlas_get_struct E A t e :
-  atlas_wf E A = true -> atlas_get A t = Some e -> exists id, strip_named t = GStruct id.
-Proof.
-  intros Hwf Hg. destruct (atlas_wf_entry E A t e Hwf Hg) as [He Het].
-  destruct (entry_wf_struct E e He) as (fields & id & _ & Hs & _). rewrite Het in Hs. eauto.
-Qed.
+(* ---------- a value whose first token is Null ------------------------------------- *)
 
-Lemma atlas_get_none_kind E A t :
-  atlas_wf E A = true -> (forall id, strip_named t <> GStruct id) -> atlas_get A t = None.
-Proof.
-  intros Hwf Hn. destruct (atlas_get A t) as [e|] eqn:Hg; [|reflexivity].
-  destruct (atlas_get_struct E A t e Hwf Hg) as [id Hs]. exfalso. eapply Hn. exact Hs.
-Qed.
+Section NullFirst.
+  Variable E : tenv.
+  Variable A : atlas.
+  Hypothesis Hwf : atlas_wf E A = true.
+
+  Definition nf_res (t : gtype) (v : gval) (ts : list token) : Prop :=
+    forall tg r, ts = Tok Null tg :: r ->
+      (r = [] /\ tg = None /\ nullish v = true) \/ null_form A t v = true.
+
+  Definition nf_all (f : nat) : Prop :=
+    (forall t v ts, okd E A t v -> marshal A f t v = MOk ts -> nf_res t v ts) /\
+    (forall t v ts, okd E A t v -> (forall t', t <> GPtr t') -> marshal_bare A f t v = MOk ts -> nf_res t v ts) /\
+    (forall t v ts, okd E A t v -> noentry A t -> marshal_kind A f (strip_named t) v = MOk ts ->
+        forall tg r, ts = Tok Null tg :: r -> r = [] /\ tg = None /\ nullish v = true).
+
+  Lemma nf_zero : nf_all 0.
+  Proof. split; [|split]; intros; discriminate. Qed.
+
+  Lemma retag_null tg ts tg' r : retag tg ts = Tok Null tg' :: r -> exists tg0, ts = Tok Null tg0 :: r.
+  Proof.
+    destruct tg as [t|]; [|cbn; intros ->; eauto]. destruct ts as [|[v t0] r0]; [discriminate|].
+    cbn. intros H; inversion H; subst. eauto.
+  Qed.
+
+  Lemma nf_step f : nf_all f -> nf_all (S f).
+  Proof.
+    intros (Hm & Hb & Hk). split; [|split].
+    - intros t v ts [Hw Hd] H. rewrite marshal_S in H. destruct (peel t) as [n base] eqn:Hp.
+      destruct (peel_deref_wt E A t v n base Hp Hw) as [(Hdr & Hn & _) | (bv & Hdr & Hwb & Hv)]; rewrite Hdr in H.
+      + inversion H; subst. intros tg r Hq. inversion Hq; subst. left. auto.
+      + intros tg r Hq. rewrite Hv in Hd. destruct (dom_wrap E A t n base bv Hp Hd) as [Hdb _].
+        destruct (Hb base bv ts (conj Hwb Hdb) (peel_base_not_ptr t n base Hp) H tg r Hq) as [(H1 & H2 & H3) | Hnf].
+        * left. repeat split; auto. rewrite Hv, nullish_wrap. exact H3.
+        * right. rewrite Hv, (null_form_wrap A t n base bv Hp). exact Hnf.
+    - intros t v ts Hok Hnp H. pose proof Hok as [Hw Hd]. rewrite marshal_bare_S in H.
+      destruct (is_unnamed_prim t) eqn:Hup.
+      { intros tg r Hq. left. pose proof (unnamed_prim_primk0 t Hup) as Hst. rewrite <- Hst in H.
+        eapply (Hk t v ts Hok); [left; exact Hup | exact H | exact Hq]. }
+      destruct (atlas_get A t) as [e|] eqn:Hg.
+      + destruct (atlas_wf_entry E A t e Hwf Hg) as [He Het]. subst t.
+        destruct f as [|f']; [discriminate|]. rewrite marshal_entry_S in H.
+        destruct (ae_kind e) as [fields|kind wire|members|mode] eqn:Hkd.
+        * cbv zeta in H. apply mprepend_ok in H. destruct H as (ts' & _ & Hts). subst ts. intros tg r Hq. discriminate.
+        * destruct (tr_fwd kind v) as [w|] eqn:Hf; [|discriminate].
+          apply wrap_transform_ok in H. destruct H as (ts1 & H1 & ->).
+          intros tg r Hq. apply retag_null in Hq. destruct Hq as [tg0 Hq].
+          destruct (entry_wf_transform E A e kind wire He Hkd) as (Hty & _ & Hnt & _).
+          pose proof (tr_fwd_dom E A Hwf e kind wire v w Hg Hkd Hok Hf) as Hokw.
+          assert (H1' : marshal A (S f') wire w = MOk ts1).
+          { rewrite (marshal_fuel_mono A f' (S f') wire w); [exact H1 | rewrite H1; discriminate | lia]. }
+          pose proof (tr_types_wire_nonptr E kind _ wire Hty) as Hwnp.
+          destruct (Hm wire w ts1 Hokw H1' tg0 r Hq) as [(_ & _ & Hnl) | Hnf].
+          -- right. rewrite (null_form_base A _ v (peel_nonptr _ Hnp)), Hg, Hkd, Hf. exact Hnl.
+          -- exfalso. rewrite (null_form_base A wire w (peel_nonptr _ Hwnp)) in Hnf.
+             unfold not_transform_type in Hnt. destruct (atlas_get A wire) as [e'|]; [|discriminate].
+             destruct (ae_kind e'); discriminate.
+        * destruct v; try discriminate H. destruct o as [[mt mv]|]; [|discriminate H].
+          destruct (find _ members) as [[name ?]|]; [|discriminate H].
+          destruct (atlas_get A mt) as [me|]; [|discriminate H].
+          apply wrap_union_ok in H. destruct H as (ts' & _ & ->). intros tg r Hq. discriminate.
+        * destruct (strip_named (ae_type e)); try discriminate H. destruct v; try discriminate H.
+          destruct o as [es|].
+          -- destruct (marshal_map_some_head _ _ _ _ _ _ _ H) as (d & r0 & ->). intros tg r Hq. discriminate.
+          -- rewrite (marshal_map_nil _ _ _ _ _ _ H). intros tg r Hq. inversion Hq; subst. left. auto.
+      + intros tg r Hq. left. eapply (Hk t v ts Hok); [right; exact Hg | exact H | exact Hq].
+    - intros t v ts [Hw Hd] Hne H tg r Hq. subst ts. rewrite marshal_kind_S in H.
+      assert (Hnu : is_union A t = false).
+      { unfold is_union. destruct Hne as [Hup | Hg]; [|rewrite Hg; reflexivity].
+        destruct (is_union A t) eqn:Hu; [|exact Hu]. destruct (is_union_iface E A Hwf t Hu) as [i Hi].
+        destruct t; discriminate. }
+      destruct (strip_named t) eqn:Hs; destruct v; try discriminate;
+        try (destruct o as [x|]; try discriminate);
+        try (inversion H; subst; auto; fail);
+        try (destruct (ik_signed k); discriminate);
+        try (apply mprepend_ok in H; destruct H as (ts' & _ & Hts); discriminate).
+      + destruct (marshal_map_some_head _ _ _ _ _ _ _ H) as (d & r0 & Hc). discriminate.
+      + pose proof (marshal_map_nil _ _ _ _ _ _ H) as Hc. inversion Hc; subst. auto.
+      + destruct x as [dt dv]. cbn [nullish]. unfold wt in Hw. cbn [wtb] in Hw. rewrite Hs in Hw.
+        cbn [domb] in Hd. rewrite Hs in Hd. apply andb_true_iff in Hd. destruct Hd as [_ Hd].
+        apply andb_true_iff in Hd. destruct Hd as [Hdd Hso]. unfold slot_ok in Hso. rewrite Hnu in Hso. cbn [orb] in Hso.
+        apply andb_true_iff in Hso. destruct Hso as [_ Hnn]. apply negb_true_iff in Hnn.
+        destruct (Hm dt dv _ (conj Hw Hdd) H tg r eq_refl) as [Hx | Hx]; [exact Hx | congruence].
+      + destruct x as [dt dv]. cbn [nullish]. unfold wt in Hw. cbn [wtb] in Hw. rewrite Hs in Hw.
+        cbn [domb] in Hd. rewrite Hs in Hd. apply andb_true_iff in Hd. destruct Hd as [_ Hd].
+        apply andb_true_iff in Hd. destruct Hd as [Hdd Hso]. unfold slot_ok in Hso. rewrite Hnu in Hso. cbn [orb] in Hso.
+        apply andb_true_iff in Hso. destruct Hso as [_ Hnn]. apply negb_true_iff in Hnn.
+        destruct (Hm dt dv _ (conj Hw Hdd) H tg r eq_refl) as [Hx | Hx]; [exact Hx | congruence].
+  Qed.
+
+  Lemma nf_all_holds f : nf_all f.
+  Proof. induction f; [apply nf_zero | apply nf_step; assumption]. Qed.
+
+  Lemma marshal_bare_null f t v tg r :
+    okd E A t v -> (forall t', t <> GPtr t') -> marshal_bare A f t v = MOk (Tok Null tg :: r) ->
+    (r = [] /\ tg = None /\ nullish v = true) \/ null_form A t v = true.
+  Proof. intros Hok Hnp H. destruct (nf_all_holds f) as (_ & Hb & _). eapply Hb; eauto. Qed.
+End NullFirst.
+
 (* ====================================================================== *)
 (* Part 7.  Helper lemmas for the main induction                             *)
 (* ====================================================================== *)
@@ -1501,15 +2241,6 @@ Proof.
   destruct tk; try discriminate; rewrite Hle; reflexivity.
 Qed.
 
-Lemma peel_S_ptr t n base : peel t = (S n, base) -> exists t', t = GPtr t'.
-Proof. destruct t; cbn; intros H; try discriminate. eauto. Qed.
-
-Lemma peel_nonptr t : (forall t', t <> GPtr t') -> peel t = (O, t).
-Proof. intros H. destruct t; try reflexivity. exfalso. eapply H. reflexivity. Qed.
-
-Lemma deref_wrap n : forall v, deref n (wrap_ptrs n v) = Some v.
-Proof. induction n; intros v; cbn; auto. Qed.
-
 Lemma existsb_false {X} (p : X -> bool) l : (forall x, In x l -> p x = false) -> existsb p l = false.
 Proof.
   induction l as [|x r IH]; intros H; [reflexivity|]. cbn.
@@ -1532,66 +2263,78 @@ Proof.
   destruct (IH Hin) as (x & Hx & Hr). exists x. split; [right; exact Hx | exact Hr].
 Qed.
 
-(* ---------- string map keys ---------------------------------------------------- *)
+(* ---------- map keys and their serial strings ------------------------------------ *)
 
-Definition key_bytes (k : gval) : bytes := match k with GVStr s => s | _ => [] end.
-Definition sk (es : list (gval * gval)) : list (bytes * gval) :=
-  map (fun kv => (key_bytes (fst kv), snd kv)) es.
+Definition s_of (str : gval -> option bytes) (k : gval) : bytes :=
+  match str k with Some s => s | None => [] end.
+Definition skg (str : gval -> option bytes) (es : list (gval * gval)) : list (bytes * gval) :=
+  map (fun kv => (s_of str (fst kv), snd kv)) es.
 Definition str_stringer : gval -> option bytes := fun k => match k with GVStr s => Some s | _ => None end.
 
-Lemma wt_string_kind E A kt k : is_string_kind kt = true -> wt E A kt k -> exists s, k = GVStr s.
+Lemma sorted_skg mode str es :
+  map_sorted mode (map_keyed str es) = sort_keys (key_ltb mode) (skg str es).
+Proof. unfold map_sorted, map_keyed, skg. rewrite map_map. reflexivity. Qed.
+
+Lemma gval_key_eqb_eq : forall a b, gval_key_eqb a b = true -> a = b.
 Proof.
-  unfold is_string_kind, wt. intros Hk Hw.
-  destruct (strip_named kt) eqn:Hs; try discriminate.
-  destruct k; cbn [wtb] in Hw; rewrite Hs in Hw; try discriminate. eauto.
+  intros a. induction a using gval_ind'; intros y Hq; destruct y; cbn in Hq; try discriminate.
+  - f_equal. lia.
+  - f_equal. apply bytes_eqb_eq. exact Hq.
+  - f_equal. revert fields Hq. induction H as [|x l Hx _ IH]; intros [|y fields] Hq; try discriminate; [reflexivity|].
+    apply andb_true_iff in Hq. destruct Hq as [H1 H2]. f_equal; [apply Hx; exact H1 | apply IH; exact H2].
 Qed.
 
-Lemma sorted_str_eq mode es :
-  map_sorted mode (map_keyed str_stringer es) = sort_keys (key_ltb mode) (sk es).
+Lemma keys_distinct_pairwise (ks : list gval) :
+  NoDup ks -> keys_distinct ks = true.
 Proof.
-  unfold map_sorted, map_keyed, sk. rewrite map_map. f_equal.
-  apply map_ext. intros [k x]. cbn. destruct k; reflexivity.
+  induction 1 as [|k l Hn Hd IH]; [reflexivity|]. cbn. rewrite IH, andb_true_r.
+  apply negb_true_iff. apply existsb_false. intros k' Hin.
+  destruct (gval_key_eqb k k') eqn:Hq; [|reflexivity]. apply gval_key_eqb_eq in Hq. subst. contradiction.
 Qed.
 
-Lemma keys_distinct_NoDup E A kt (es : list (gval * gval)) :
-  is_string_kind kt = true -> (forall kv, In kv es -> wt E A kt (fst kv)) ->
-  keys_distinct (map fst es) = true -> NoDup (map fst (sk es)).
+Lemma keys_distinct_NoDup (ks : list gval) :
+  (forall k, In k ks -> gval_key_eqb k k = true) -> keys_distinct ks = true -> NoDup ks.
 Proof.
-  intros Hk. induction es as [|[k x] es IH]; intros Hw Hd; cbn; [constructor|].
+  induction ks as [|k l IH]; intros Hr Hd; [constructor|].
   cbn in Hd. apply andb_true_iff in Hd. destruct Hd as [Hn Hd]. constructor.
-  - intros Hin. unfold sk in Hin. rewrite map_map in Hin. cbn in Hin.
-    apply in_map_iff in Hin. destruct Hin as ([k' x'] & Hq & Hin'). cbn in Hq.
-    destruct (wt_string_kind E A kt k Hk (Hw (k, x) (or_introl eq_refl))) as [s ->].
-    destruct (wt_string_kind E A kt k' Hk (Hw (k', x') (or_intror Hin'))) as [s' ->].
-    cbn in Hq. subst s'. apply negb_true_iff in Hn.
-    assert (Hc : existsb (gval_key_eqb (GVStr s)) (map fst es) = true).
-    { apply existsb_exists. exists (GVStr s). split; [|cbn; apply bytes_eqb_refl].
-      apply in_map_iff. exists (GVStr s, x'). auto. }
+  - intros Hin. apply negb_true_iff in Hn.
+    assert (Hc : existsb (gval_key_eqb k) l = true).
+    { apply existsb_exists. exists k. split; [exact Hin | apply Hr; left; reflexivity]. }
     congruence.
-  - apply IH; [|exact Hd]. intros kv Hin. apply Hw. right. exact Hin.
+  - apply IH; [intros k' Hk'; apply Hr; right; exact Hk' | exact Hd].
 Qed.
 
-Lemma keys_distinct_strs (l : list bytes) : NoDup l -> keys_distinct (map GVStr l) = true.
-Proof.
-  induction 1 as [|s l Hn Hd IH]; [reflexivity|]. cbn. rewrite IH, andb_true_r.
-  apply negb_true_iff. apply existsb_false. intros k Hin.
-  apply in_map_iff in Hin. destruct Hin as (s' & <- & Hin). cbn.
-  destruct (bytes_eqb s s') eqn:Hq; [|reflexivity]. apply bytes_eqb_eq in Hq. subst. contradiction.
-Qed.
-
-(* stage 2: map keys are strings *)
-Lemma stringer_strings E A kt str :
+(* how keys become strings and back, for the key types of well-formed atlases *)
+Lemma stringer_facts E A kt str :
   atlas_wf E A = true -> map_stringer A kt = Some str ->
-  is_string_kind kt = true /\ str = str_stringer /\ key_destringer A kt = Some (fun s => Some (GVStr s)).
+  exists destr, key_destringer A kt = Some destr /\
+    (forall k s, key_dom A kt k = true -> str k = Some s -> destr s = Some k /\ gval_key_eqb k k = true) /\
+    (forall s k, destr s = Some k -> str k = Some s).
 Proof.
-  intros Hwf. unfold map_stringer, key_destringer.
+  intros Hwf. unfold map_stringer, key_destringer, key_dom.
   destruct (is_string_kind kt) eqn:Hk.
-  - intros H. inversion H. auto.
-  - destruct (strip_named kt); try discriminate.
+  - intros H. inversion H; subst str. exists (fun s => Some (GVStr s)). split; [reflexivity|]. split.
+    + intros k s _ Hs. destruct k; try discriminate Hs. inversion Hs; subst. split; [reflexivity | cbn; apply bytes_eqb_refl].
+    + intros s k Hs. inversion Hs; subst. reflexivity.
+  - destruct (strip_named kt) eqn:Hst; try discriminate.
     destruct (atlas_get A kt) as [e|] eqn:Hg; [|discriminate].
-    destruct (atlas_wf_entry E A kt e Hwf Hg) as [He _].
-    destruct (entry_wf_struct E e He) as (fields & id' & Hkd & _).
-    destruct e as [ty tg kd]. cbn in Hkd. subst kd. discriminate.
+    destruct (atlas_wf_entry E A kt e Hwf Hg) as [He Het].
+    destruct e as [ty tg kd]. destruct kd as [fields|kind wire|members|mode]; try discriminate.
+    destruct (is_string_kind wire) eqn:Hsw; [|discriminate].
+    intros H. inversion H; subst str. exists (fun s => tr_bwd kind (GVStr s)). split; [reflexivity|].
+    cbn [ae_kind].
+    destruct (entry_wf_transform E A _ kind wire He eq_refl) as (Hty & _). cbn [ae_type] in Hty.
+    split.
+    + intros k s Hd Hs. destruct (tr_fwd kind k) as [w|] eqn:Hf; [|discriminate Hs].
+      destruct w; try discriminate Hs. inversion Hs; subst s0.
+      split; [eapply tr_bwd_fwd; eassumption|].
+      (* only kinds 2 and 6 have a string serial form and a struct type *)
+      revert Hty Hf Hd. unfold tr_types_ok, tr_fwd, tr_dom, is_string_kind in *.
+      kind_cases kind; intros Hty Hf Hd; try discriminate Hty; try discriminate Hf;
+        tr_ok_split Hty; shape Hf; try discriminate Hf;
+        try (apply strips_to_eq in Hwi; rewrite Hwi in Hsw; discriminate Hsw);
+        try (cbn; rewrite !bytes_eqb_refl; reflexivity).
+    + intros s k Hb. apply tr_fwd_bwd in Hb. destruct Hb as [Hf _]. rewrite Hf. reflexivity.
 Qed.
 
 (* ---------- struct fields ------------------------------------------------------- *)
@@ -1658,26 +2401,29 @@ Proof.
 Qed.
 
 Lemma req_nonempty E A ft fv fv' :
-  req E A ft fv fv' -> wt E A ft fv -> omit_type_ok ft = true -> is_empty fv = false -> is_empty fv' = false.
+  req E A ft fv fv' -> wt E A ft fv -> omit_type_ok A ft = true -> is_empty fv = false -> is_empty fv' = false.
 Proof.
-  intros Hr Hw Ho He. inversion Hr; subst; try exact He.
+  intros Hr Hw Ho He. unfold omit_type_ok in Ho. apply andb_true_iff in Ho. destruct Ho as [Hoe Ho].
+  inversion Hr; subst; try exact He.
   - inversion H0; subst; [discriminate He | reflexivity].
   - inversion H0; subst; [discriminate He | reflexivity].
   - destruct es; destruct es'; try discriminate; reflexivity.
-  - unfold omit_type_ok in Ho. cbn [strip_named] in Ho.
+  - cbn [strip_named] in Ho.
     destruct (wt_ptr_inv E A t _ Hw) as [Hv | [y [Hv Hy]]]; [discriminate|]. inversion Hv; subst y.
     rewrite (non_nullable_not_nullish E A t x Hy Ho) in H. discriminate.
-  - unfold wt in Hw. cbn [wtb] in Hw. unfold omit_type_ok in Ho.
+  - unfold wt in Hw. cbn [wtb] in Hw.
     destruct (strip_named ft); discriminate.
-  - unfold wt in Hw. rewrite wt_struct_eq in Hw. unfold omit_type_ok in Ho.
+  - unfold wt in Hw. rewrite wt_struct_eq in Hw.
     destruct (strip_named ft); discriminate.
+  - rewrite H, H0 in Hoe. discriminate.
 Qed.
 
 Lemma is_empty_zero E A ft fv :
-  wt E A ft fv -> is_empty fv = true -> omit_type_ok ft = true -> no_bad (zero_of E ft) = true ->
+  wt E A ft fv -> is_empty fv = true -> omit_type_ok A ft = true -> no_bad (zero_of E ft) = true ->
   is_empty (zero_of E ft) = true.
 Proof.
-  intros Hw He Ho Hnb. rewrite (zero_of_strip E ft Hnb). unfold omit_type_ok in Ho. unfold wt in Hw.
+  intros Hw He Ho Hnb. rewrite (zero_of_strip E ft Hnb). unfold omit_type_ok in Ho.
+  apply andb_true_iff in Ho. destruct Ho as [_ Ho]. unfold wt in Hw.
   destruct (strip_named ft) eqn:Hs; try discriminate; rewrite zero_of_unf; try reflexivity.
   - destruct fv; cbn [wtb] in Hw; rewrite Hs in Hw; try discriminate.
     apply andb_true_iff in Hw. destruct Hw as [Hl _]. apply Nat.eqb_eq in Hl.
@@ -1715,7 +2461,7 @@ Qed.
 
 Lemma omit_ok_field A e fields fe :
   omit_ok A = true -> In e (a_entries A) -> ae_kind e = EStruct fields -> In fe fields ->
-  fe_ignore fe = false -> fe_omit fe = true -> omit_type_ok (fe_type fe) = true.
+  fe_ignore fe = false -> fe_omit fe = true -> omit_type_ok A (fe_type fe) = true.
 Proof.
   intros Ho Hin Hk Hfe Hig Hom. unfold omit_ok in Ho. rewrite forallb_forall in Ho.
   specialize (Ho e Hin). rewrite Hk in Ho. rewrite forallb_forall in Ho. specialize (Ho fe Hfe).
@@ -1723,8 +2469,15 @@ Proof.
 Qed.
 
 
-Lemma req_atom_inv E A t v v' : atom v = true -> req E A t v v' -> v' = v.
-Proof. intros Ha Hr. inversion Hr; subst; try reflexivity; discriminate Ha. Qed.
+Lemma req_atom_inv E A t v v' : not_transform_type A t = true -> atom v = true -> req E A t v v' -> v' = v.
+Proof.
+  intros Hnt Ha Hr. inversion Hr; subst; try reflexivity; try discriminate Ha.
+  unfold not_transform_type in Hnt. rewrite H, H0 in Hnt. discriminate.
+Qed.
+
+Lemma not_transform_none A t : atlas_get A t = None -> not_transform_type A t = true.
+Proof. intros H. unfold not_transform_type. rewrite H. reflexivity. Qed.
+
 (* ====================================================================== *)
 (* Part 8.  The main induction (on the fuel of the marshaller)               *)
 (* ====================================================================== *)
@@ -1755,12 +2508,86 @@ Qed.
 Lemma zero_of_map E kt vt : zero_of E (GMap kt vt) = GVMap None.
 Proof. rewrite zero_of_unf. reflexivity. Qed.
 
-Ltac atom_same Hr :=
+Ltac atom_same Hr Hg :=
   match type of Hr with
   | req ?E0 ?A0 ?t ?v ?v' =>
       let Hq := fresh "Hq" in
-      assert (Hq : v' = v) by (apply (req_atom_inv E0 A0 t v v'); [reflexivity | exact Hr]); subst v'
+      assert (Hq : v' = v)
+        by (apply (req_atom_inv E0 A0 t v v'); [apply not_transform_none; exact Hg | reflexivity | exact Hr]);
+      subst v'
   end.
+
+(* the first token of a rendering without its tag: what a tagged transform's serial
+   machine sees (the marshaller put the transform's tag on a token that had none) *)
+Lemma untag_retag tag ts1 rest :
+  (tag = None \/ exists tk r, ts1 = Tok tk None :: r) ->
+  untag_own tag (retag tag ts1 ++ rest) = ts1 ++ rest.
+Proof.
+  intros [-> | (tk & r & ->)]; [reflexivity|]. destruct tag as [t|]; [|reflexivity].
+  cbn. rewrite Z.eqb_refl. reflexivity.
+Qed.
+
+Lemma find_member_name (members : list (bytes * gtype)) name mt :
+  names_distinct (map fst members) = true -> In (name, mt) members ->
+  find (fun m => bytes_eqb (fst m) name) members = Some (name, mt).
+Proof.
+  induction members as [|x l IH]; intros Hd Hin; [contradiction|].
+  cbn in Hd. apply andb_true_iff in Hd. destruct Hd as [Hn Hd]. cbn [find].
+  destruct (bytes_eqb (fst x) name) eqn:Hq.
+  - destruct Hin as [-> | Hin]; [reflexivity|]. apply bytes_eqb_eq in Hq.
+    apply negb_true_iff in Hn.
+    assert (Hc : existsb (bytes_eqb (fst x)) (map fst l) = true).
+    { apply existsb_exists. exists name. split; [apply (in_map fst _ _ Hin) | rewrite Hq; apply bytes_eqb_refl]. }
+    congruence.
+  - destruct Hin as [-> | Hin]; [cbn in Hq; rewrite bytes_eqb_refl in Hq; discriminate|]. apply IH; assumption.
+Qed.
+
+(* everything but an interface value starts with an untagged token by default *)
+Lemma kind_head_untagged A f t v ts :
+  marshal_kind A f t v = MOk ts -> t <> GAny -> (forall i, t <> GIface i) ->
+  exists tk r, ts = Tok tk None :: r.
+Proof.
+  intros H Ha Hi. destruct f as [|f]; [discriminate|]. rewrite marshal_kind_S in H.
+  destruct t; destruct v; try discriminate H;
+    try (destruct o as [x|]; try discriminate H);
+    try (inversion H; subst; eauto; fail);
+    try (apply mprepend_ok in H; destruct H as (ts' & _ & ->); cbn [app]; eauto; fail).
+  all: try (contradiction Ha; reflexivity); try (exfalso; eapply Hi; reflexivity).
+  - destruct (marshal_map_some_head _ _ _ _ _ _ _ H) as (d & r & ->). eauto.
+  - rewrite (marshal_map_nil _ _ _ _ _ _ H). eauto.
+Qed.
+
+(* the backward function is defined on what the serial form reads back as *)
+Lemma tr_bwd_defined E A kind ty wire v w w' :
+  tr_types_ok E kind ty wire = true -> not_transform_type A wire = true ->
+  tr_dom kind v = true -> tr_fwd kind v = Some w -> req E A wire w w' -> wt E A wire w' ->
+  exists v', tr_bwd kind w' = Some v'.
+Proof.
+  intros Hty Hnt Hd Hf Hr Hw'.
+  assert (Hatom : atom w = true -> exists v', tr_bwd kind w' = Some v').
+  { intros Ha. rewrite (req_atom_inv E A wire w w' Hnt Ha Hr). exists v. eapply tr_bwd_fwd; eassumption. }
+  revert Hty Hf Hw' Hatom. unfold tr_types_ok, tr_fwd, tr_bwd. clear Hd.
+  kind_cases kind; intros Hty Hf Hw' Hatom; try discriminate Hty; try discriminate Hf.
+  all: tr_ok_split Hty; shape Hf; inversion Hf; subst w; try (apply Hatom; reflexivity).
+  - (* 4 *) destruct (strip_named wire) eqn:Hsw; try discriminate Hwi.
+    inversion Hr; subst; try discriminate.
+    + match goal with HF : Forall2 _ _ _ |- _ => inversion HF as [|? y1 ? l1 _ HF1]; subst; inversion HF1 as [|? y2 ? l2 _ HF2]; subst; inversion HF2; subst end.
+      unfold wt in Hw'. cbn [wtb] in Hw'. rewrite Hsw in Hw'. cbn [forallb] in Hw'.
+      apply andb_true_iff in Hw'. destruct Hw' as [Hy1 Hy2]. apply andb_true_iff in Hy2. destruct Hy2 as [Hy2 _].
+      apply strips_to_eq in Hwi.
+      destruct y1; cbn [wtb] in Hy1; rewrite Hwi in Hy1; try discriminate Hy1.
+      destruct y2; cbn [wtb] in Hy2; rewrite Hwi in Hy2; try discriminate Hy2. eexists; reflexivity.
+    + unfold not_transform_type in Hnt. rewrite H, H0 in Hnt. discriminate.
+  - (* 5 *) apply (wt_fields_are E A _ _ _ Hwi) in Hw'. destruct Hw' as (fs & -> & Hfs).
+    destruct fs as [|x [|? ?]]; cbn in Hfs; rewrite ?andb_false_r in Hfs; try discriminate Hfs.
+    destruct x; try discriminate Hfs. eexists; reflexivity.
+  - (* 7 *) apply (wt_fields_are E A _ _ _ Hwi) in Hw'. destruct Hw' as (fs & -> & Hfs).
+    destruct fs as [|x [|y [|? ?]]]; cbn in Hfs; rewrite ?andb_false_r in Hfs; try discriminate Hfs;
+      try (destruct x; discriminate Hfs).
+    destruct x; try discriminate Hfs. destruct y; cbn in Hfs; rewrite ?andb_false_r in Hfs; try discriminate Hfs.
+    eexists; reflexivity.
+  - (* 9 *) apply (wt_strips E A _ _ _ Hwi) in Hw'. unfold wt in Hw'. destruct w'; try discriminate Hw'. eexists; reflexivity.
+Qed.
 
 Section Main.
   Variable E : tenv.
@@ -1772,7 +2599,7 @@ Section Main.
   Definition rmh : Prop := omit_ok A = true.
 
   (* the input side: well typed and in the domain *)
-  Definition okv (t : gtype) (v : gval) : Prop := wt E A t v /\ domb E A t v = true.
+  Definition okv (t : gtype) (v : gval) : Prop := okd E A t v.
 
   Definition P_marshal (f : nat) : Prop :=
     forall t v ts, okv t v -> marshal A f t v = MOk ts ->
@@ -1787,7 +2614,7 @@ Section Main.
       (rmh -> rmv v = true -> marshal_bare A f t v' = MOk ts).
 
   Definition P_kind (f : nat) : Prop :=
-    forall t v ts, okv t v -> marshal_kind A f (strip_named t) v = MOk ts ->
+    forall t v ts, okv t v -> noentry A t -> marshal_kind A f (strip_named t) v = MOk ts ->
     exists v', req E A t v v' /\ wt E A t v' /\
       (forall cur rest, mblank cur = true ->
          uconv (fun f' => unmarshal_kind E A f' (strip_named t) cur (ts ++ rest)) (UOk v' rest)) /\
@@ -1877,8 +2704,10 @@ Section Main.
       exists (VPtr None). repeat split; auto.
       destruct (peel_S_ptr t n' base Hp) as [t' Ht]. subst t v.
       destruct x as [y|]; [apply req_ptr_null; exact Hn | apply req_atom; reflexivity].
-    - assert (Hokb : okv base bv).
-      { split; [exact Hwb|]. rewrite <- (dom_wrap E A t n base bv Hp), <- Hv. exact Hdom. }
+    - assert (Hdw : domb E A base bv = true /\ (n <> O -> null_form A base bv = false)).
+      { apply (dom_wrap E A t n base bv Hp). rewrite <- Hv. exact Hdom. }
+      destruct Hdw as [Hdb Hnnf].
+      assert (Hokb : okv base bv) by (split; assumption).
       destruct (Hb base bv ts Hokb H) as (bv' & Hr & Hw' & Hu & Hm).
       assert (Hrmb : rmv v = true -> rmv bv = true) by (rewrite Hv, rmv_wrap; auto).
       destruct n as [|n'].
@@ -1896,7 +2725,8 @@ Section Main.
         assert (Hcase : tk = Null \/ tk <> Null) by (destruct tk; auto; right; discriminate).
         destruct Hcase as [-> | Hnn].
         * (* the target marshals as Null: comes back as a nil pointer *)
-          destruct (marshal_bare_null E A Hwf f base bv tg r Hwb H) as (-> & -> & Hnl).
+          destruct (marshal_bare_null E A Hwf f base bv tg r Hokb (peel_base_not_ptr t _ base Hp) H)
+            as [(-> & -> & Hnl) | Hnf]; [|rewrite (Hnnf ltac:(discriminate)) in Hnf; discriminate Hnf].
           destruct (Hnull n' eq_refl) as (v' & Hv' & Hw'' & Hu' & Hm''). subst v'.
           exists (VPtr None). repeat split; auto.
           subst t v. cbn [wrap_ptrs]. apply req_ptr_null. rewrite nullish_wrap. exact Hnl.
@@ -1929,7 +2759,7 @@ Section Main.
         exists v'. repeat split; auto.
         * intros rest. eapply uconv_S; [|apply Hu]. intros f'. rewrite unmarshal_bare_S, Hup, Hg. reflexivity.
         * intros Hrm Hrv. rewrite marshal_bare_S, Hup, Hg. apply Hm; auto.
-      + destruct (Hk t v ts Hok H) as (v' & Hr & Hw' & Hu & Hm).
+      + destruct (Hk t v ts Hok (or_intror Hg) H) as (v' & Hr & Hw' & Hu & Hm).
         exists v'. repeat split; auto.
         * intros rest. eapply uconv_S; [|apply (Hu (zero_of E t) rest)].
           -- intros f'. rewrite unmarshal_bare_S, Hup, Hg. reflexivity.
@@ -2020,22 +2850,23 @@ Section Main.
     wtb E A t (GVMap o) =
     match o with
     | None => true
-    | Some es => is_string_kind kt && forallb (fun kv => wtb E A kt (fst kv) && wtb E A vt (snd kv)) es &&
+    | Some es => stringer_ok A kt && forallb (fun kv => wtb E A kt (fst kv) && wtb E A vt (snd kv)) es &&
                  keys_distinct (map fst es)
     end.
   Proof. intros Hs. cbn [wtb]. rewrite Hs. destruct o; reflexivity. Qed.
 
   Lemma domb_slice t et l : strip_named t = GSlice et ->
-    domb E A t (VSlice (Some l)) = forallb (domb E A et) l.
-  Proof. intros Hs. cbn [domb]. rewrite Hs. reflexivity. Qed.
+    domb E A t (VSlice (Some l)) = true -> forallb (domb E A et) l = true.
+  Proof. intros Hs. cbn [domb]. rewrite Hs. intros H. apply andb_true_iff in H. apply H. Qed.
 
   Lemma domb_arr t n et l : strip_named t = GArr n et ->
-    domb E A t (GVArr l) = forallb (domb E A et) l.
-  Proof. intros Hs. cbn [domb]. rewrite Hs. reflexivity. Qed.
+    domb E A t (GVArr l) = true -> forallb (domb E A et) l = true.
+  Proof. intros Hs. cbn [domb]. rewrite Hs. intros H. apply andb_true_iff in H. apply H. Qed.
 
   Lemma domb_map t kt vt es : strip_named t = GMap kt vt ->
-    domb E A t (GVMap (Some es)) = forallb (fun kv => domb E A vt (snd kv)) es.
-  Proof. intros Hs. cbn [domb]. rewrite Hs. reflexivity. Qed.
+    domb E A t (GVMap (Some es)) = true ->
+    forallb (fun kv => key_dom A kt (fst kv) && domb E A vt (snd kv)) es = true.
+  Proof. intros Hs. cbn [domb]. rewrite Hs. intros H. apply andb_true_iff in H. apply H. Qed.
 
   Lemma okv_list et (l : list gval) :
     forallb (wtb E A et) l = true -> forallb (domb E A et) l = true -> Forall (okv et) l.
@@ -2057,8 +2888,11 @@ Section Main.
   Proof. intros [Hs | [i Hs]]; cbn [wtb]; rewrite Hs; destruct o as [[dt dv]|]; reflexivity. Qed.
 
   Lemma domb_any t dt dv : is_any t ->
-    domb E A t (VAny (Some (dt, dv))) = domb E A dt dv && (nullish dv || any_ok A dt).
-  Proof. intros [Hs | [i Hs]]; cbn [domb]; rewrite Hs; reflexivity. Qed.
+    domb E A t (VAny (Some (dt, dv))) = true -> domb E A dt dv = true /\ slot_ok A t dt dv = true.
+  Proof.
+    intros [Hs | [i Hs]]; cbn [domb]; rewrite Hs; intros H; apply andb_true_iff in H; destruct H as [_ H];
+      apply andb_true_iff in H; exact H.
+  Qed.
 
   Lemma marshal_kind_any f t o : is_any t ->
     marshal_kind A (S f) (strip_named t) (VAny o) =
@@ -2069,82 +2903,92 @@ Section Main.
     unmarshal_kind E A (S f) (strip_named t) cur ts = unmarshal_any E A f ts.
   Proof. intros [Hs | [i Hs]]; rewrite unmarshal_kind_S, Hs; reflexivity. Qed.
 
-  (* a value of a non-pointer, non-struct type: marshal goes to marshal_kind *)
+  (* a value of a non-pointer type without entry: marshal goes to marshal_kind *)
   Lemma marshal_plain f t v ts :
-    (forall id, strip_named t <> GStruct id) -> (forall t', t <> GPtr t') ->
+    noentry A t -> (forall t', t <> GPtr t') ->
     marshal A f t v = MOk ts ->
     exists f3, f = S (S (S f3)) /\ marshal_kind A (S f3) (strip_named t) v = MOk ts.
   Proof.
-    intros Hns Hnp H. destruct f as [|f1]; [discriminate|].
+    intros Hne Hnp H. destruct f as [|f1]; [discriminate|].
     rewrite marshal_S, (peel_nonptr t Hnp) in H. cbn [deref] in H.
     destruct f1 as [|f2]; [discriminate|]. rewrite marshal_bare_S in H.
     assert (Hk : marshal_kind A f2 (strip_named t) v = MOk ts).
     { destruct (is_unnamed_prim t) eqn:Hup.
-      - destruct (unnamed_prim_primk t Hup) as [_ Hst]. rewrite Hst. exact H.
-      - rewrite (atlas_get_none_kind E A t Hwf Hns) in H. exact H. }
+      - rewrite (unnamed_prim_primk0 t Hup). exact H.
+      - destruct Hne as [Hc | Hg]; [congruence|]. rewrite Hg in H. exact H. }
     destruct f2 as [|f3]; [discriminate|]. exists f3. auto.
   Qed.
 
   Lemma unmarshal_plain f t cur ts :
-    (forall id, strip_named t <> GStruct id) -> (forall t', t <> GPtr t') -> is_unnamed_prim t = false ->
+    atlas_get A t = None -> (forall t', t <> GPtr t') -> is_unnamed_prim t = false ->
     unmarshal E A (S (S f)) t cur ts = unmarshal_kind E A f (strip_named t) cur ts.
   Proof.
-    intros Hns Hnp Hup. rewrite unmarshal_S, (peel_nonptr t Hnp), unmarshal_bare_S, Hup.
-    rewrite (atlas_get_none_kind E A t Hwf Hns). reflexivity.
+    intros Hg Hnp Hup. rewrite unmarshal_S, (peel_nonptr t Hnp), unmarshal_bare_S, Hup, Hg. reflexivity.
   Qed.
 
   Lemma uconv_plain t cur ts r :
-    (forall id, strip_named t <> GStruct id) -> (forall t', t <> GPtr t') -> is_unnamed_prim t = false ->
+    atlas_get A t = None -> (forall t', t <> GPtr t') -> is_unnamed_prim t = false ->
     uconv (fun f' => unmarshal E A f' t cur ts) r ->
     uconv (fun f' => unmarshal_kind E A f' (strip_named t) cur ts) r.
   Proof.
-    intros Hns Hnp Hup H.
+    intros Hg Hnp Hup H.
     apply (uconv_pred (fun f' => unmarshal E A (S f') t cur ts)); [intros f'; apply unmarshal_plain; assumption|].
     apply (uconv_pred (fun f' => unmarshal E A f' t cur ts)); [reflexivity | exact H].
   Qed.
 
+  Lemma prim_no_entry t : is_unnamed_prim t = true -> atlas_get A t = None.
+  Proof.
+    intros Hup. destruct (atlas_get A t) as [e|] eqn:Hg; [|reflexivity].
+    destruct (atlas_wf_entry E A t e Hwf Hg) as [He Het].
+    destruct (entry_type_shape E A e He) as [Hc _]. rewrite Het in Hc. congruence.
+  Qed.
+
   Lemma step_any f : P_marshal f ->
     forall dt dv ts, okv dt dv -> (nullish dv || any_ok A dt) = true -> marshal A f dt dv = MOk ts ->
-    exists w, req E A GAny (VAny (Some (dt, dv))) w /\ wt E A GAny w /\
-      (forall rest, uconv (fun f' => unmarshal_any E A f' (ts ++ rest)) (UOk w rest)) /\
-      (rmh -> rmv (VAny (Some (dt, dv))) = true -> marshal_kind A (S f) GAny w = MOk ts).
+    exists o', (forall t0, req E A t0 (VAny (Some (dt, dv))) (VAny o')) /\ wt E A GAny (VAny o') /\
+      (forall rest, uconv (fun f' => unmarshal_any E A f' (ts ++ rest)) (UOk (VAny o') rest)) /\
+      (rmh -> rmv (VAny (Some (dt, dv))) = true -> marshal_kind A (S f) GAny (VAny o') = MOk ts).
   Proof.
     intros Hm dt dv ts Hok Hany H. pose proof Hok as [Hw Hdom].
     destruct (Hm dt dv ts Hok H) as (dv' & Hr & Hw' & Hu & Hmv).
     destruct (nullish dv) eqn:Hnl.
     { (* marshals as Null: comes back as a nil interface *)
       rewrite (marshal_nullish E A Hwf f dt dv ts Hw Hnl H).
-      exists (VAny None). split; [apply req_any_null; exact Hnl|]. split; [reflexivity|]. split.
+      exists None. split; [intros t0; apply req_any_null; exact Hnl|]. split; [reflexivity|]. split.
       - intros rest. eapply uconv_S; [|apply uconv_const]. intros f'. rewrite unmarshal_any_S. reflexivity.
       - intros _ _. rewrite marshal_kind_S. reflexivity. }
     cbn [orb] in Hany.
     (* same dynamic type, value related by the typed round trip *)
     assert (Hsame : (forall rest, uconv (fun f' => unmarshal_any E A f' (ts ++ rest)) (UOk (VAny (Some (dt, dv'))) rest)) ->
-      exists w, req E A GAny (VAny (Some (dt, dv))) w /\ wt E A GAny w /\
-      (forall rest, uconv (fun f' => unmarshal_any E A f' (ts ++ rest)) (UOk w rest)) /\
-      (rmh -> rmv (VAny (Some (dt, dv))) = true -> marshal_kind A (S f) GAny w = MOk ts)).
-    { intros Hua. exists (VAny (Some (dt, dv'))). split; [apply req_any; exact Hr|]. split; [exact Hw'|].
+      exists o', (forall t0, req E A t0 (VAny (Some (dt, dv))) (VAny o')) /\ wt E A GAny (VAny o') /\
+      (forall rest, uconv (fun f' => unmarshal_any E A f' (ts ++ rest)) (UOk (VAny o') rest)) /\
+      (rmh -> rmv (VAny (Some (dt, dv))) = true -> marshal_kind A (S f) GAny (VAny o') = MOk ts)).
+    { intros Hua. exists (Some (dt, dv')). split; [intros t0; apply req_any; exact Hr|]. split; [exact Hw'|].
       split; [exact Hua|]. intros Hrm Hrv. cbn [rmv] in Hrv. apply andb_true_iff in Hrv.
       rewrite marshal_kind_S. apply Hmv; [exact Hrm | apply Hrv]. }
-    destruct (atlas_get A dt) as [e|] eqn:Hg.
+    unfold any_ok in Hany. destruct (tagged_slot A dt) eqn:Htag.
     - (* a tagged atlas type: reconstructed through its tag *)
-      destruct (atlas_get_struct E A dt e Hwf Hg) as [id Hs].
-      assert (Htag : exists tg e', ae_tag e = Some tg /\ atlas_by_tag A tg = Some e' /\ ae_type e' = dt).
-      { destruct dt; try discriminate Hs; cbn [any_ok] in Hany; rewrite Hg in Hany;
-          (destruct (ae_tag e) as [tg|]; [|discriminate]);
+      clear Hany. unfold tagged_slot in Htag. apply andb_true_iff in Htag. destruct Htag as [Hup Htag].
+      apply negb_true_iff in Hup.
+      destruct (atlas_get A dt) as [e|] eqn:Hg; [|discriminate].
+      destruct (atlas_wf_entry E A dt e Hwf Hg) as [He Het].
+      destruct (entry_type_shape E A e He) as [_ Hnp]. rewrite Het in Hnp.
+      assert (Htg : exists tg e', ae_tag e = Some tg /\ atlas_by_tag A tg = Some e' /\ ae_type e' = dt /\
+                     match ae_kind e with EStruct _ | ETransform _ _ => True | _ => False end).
+      { destruct (ae_kind e); destruct (ae_tag e) as [tg|]; try discriminate Htag;
           (destruct (atlas_by_tag A tg) as [e'|] eqn:Hbt; [|discriminate]);
-          apply gtype_eqb_eq in Hany; eauto. }
-      destruct Htag as (tg & e' & Htg & Hbt & Hty).
-      assert (Hnp : forall t', dt <> GPtr t') by (intros t' Hc; rewrite Hc in Hs; cbn in Hs; discriminate Hs).
-      assert (Hup : is_unnamed_prim dt = false) by (destruct dt; try reflexivity; cbn in Hs; discriminate Hs).
+          apply gtype_eqb_eq in Htag; exists tg, e'; auto. }
+      destruct Htg as (tg & e' & Htg & Hbt & Hty & Hkd).
       (* the first token carries the tag *)
       assert (Hts : exists tk r, ts = Tok tk (Some tg) :: r).
       { destruct f as [|f1]; [discriminate|]. rewrite marshal_S, (peel_nonptr dt Hnp) in H. cbn [deref] in H.
         destruct f1 as [|f2]; [discriminate|]. rewrite marshal_bare_S, Hup, Hg in H.
-        destruct (atlas_wf_entry E A dt e Hwf Hg) as [He _].
-        destruct (entry_wf_struct E e He) as (fields & id' & Hkd & _).
-        destruct f2 as [|f3]; [discriminate|]. rewrite marshal_entry_S, Hkd in H. cbv zeta in H.
-        apply mprepend_ok in H. destruct H as (ts' & _ & Hts). rewrite Htg in Hts. cbn in Hts. eauto. }
+        destruct f2 as [|f3]; [discriminate|]. rewrite marshal_entry_S in H.
+        destruct (ae_kind e) as [fields|kind wire|members|mode]; try contradiction.
+        - cbv zeta in H. apply mprepend_ok in H. destruct H as (ts' & _ & Hts). rewrite Htg in Hts. cbn in Hts. eauto.
+        - destruct (tr_fwd kind dv) as [w|]; [|discriminate]. apply wrap_transform_ok in H.
+          destruct H as (ts1 & H1 & ->). destruct (marshal_starts A _ _ _ _ H1) as (tk & tg0 & r & -> & _).
+          rewrite Htg. cbn. eauto. }
       destruct Hts as (tk & r & Hts).
       apply Hsame. intros rest. eapply uconv_S.
       + intros f'. rewrite Hts. cbn [app]. rewrite unmarshal_any_S. cbv iota beta. rewrite Hbt. cbv zeta. rewrite Hty.
@@ -2152,16 +2996,22 @@ Section Main.
       + apply (uconv_bind _ (fun _ x r' => UOk (VAny (Some (dt, x))) r') dv' rest); [|apply uconv_const].
         eapply uconv_pred; [|apply (Hu rest)]. intros f'. cbv beta. rewrite unmarshal_S, (peel_nonptr dt Hnp). reflexivity.
     - (* scalars, []interface{}, map[string]interface{} *)
-      destruct dt; cbn [any_ok] in Hany; rewrite ?Hg in Hany; try discriminate Hany.
+      rewrite orb_false_r in Hany. unfold native_slot in Hany.
+      assert (Hg : atlas_get A dt = None).
+      { destruct (is_unnamed_prim dt) eqn:Hup; [apply prim_no_entry; exact Hup|]. cbn [orb] in Hany.
+        destruct (atlas_get A dt); [discriminate | reflexivity]. }
+      rewrite Hg in Hany.
+      assert (Hne : noentry A dt) by (right; exact Hg).
+      destruct dt; cbn in Hany; try discriminate Hany.
       + (* bool *)
-        destruct (marshal_plain f GBool dv ts) as (f3 & -> & Hk); [discriminate | discriminate | exact H |].
+        destruct (marshal_plain f GBool dv ts) as (f3 & -> & Hk); [exact Hne | discriminate | exact H |].
         cbn [strip_named] in Hk. rewrite marshal_kind_S in Hk. destruct dv; try discriminate Hk. inversion Hk; subst ts.
-        atom_same Hr.
+        atom_same Hr Hg.
         apply Hsame. intros rest. eapply uconv_S; [|apply uconv_const]. intros f'. rewrite unmarshal_any_S. reflexivity.
       + (* integers: the slot chooses int or uint64 *)
-        destruct (marshal_plain f (GNum k) dv ts) as (f3 & -> & Hk); [discriminate | discriminate | exact H |].
+        destruct (marshal_plain f (GNum k) dv ts) as (f3 & -> & Hk); [exact Hne | discriminate | exact H |].
         cbn [strip_named] in Hk. rewrite marshal_kind_S in Hk. destruct dv; try discriminate Hk. inversion Hk; subst ts.
-        exists (VAny (Some (any_num_type k z, VNum z))). split; [apply req_any_num|]. split; [|split].
+        exists (Some (any_num_type k z, VNum z)). split; [intros t0; apply req_any_num|]. split; [|split].
         * unfold wt in Hw. cbn [wtb strip_named] in Hw. pose proof (in_kind_any k z Hw) as Hik.
           unfold wt. cbn [wtb strip_named]. destruct (any_num_type k z); try contradiction. exact Hik.
         * intros rest. eapply uconv_S; [|apply uconv_const]. intros f'. rewrite unmarshal_any_S.
@@ -2174,62 +3024,59 @@ Section Main.
             cbn [native_dt] in Hnat. apply Z.ltb_lt in Hnat. destruct (z <=? max_i64) eqn:Hz; [lia | reflexivity]. }
           rewrite Hq. exact H.
       + (* float32 comes back as float64 *)
-        destruct (marshal_plain f GF32 dv ts) as (f3 & -> & Hk); [discriminate | discriminate | exact H |].
+        destruct (marshal_plain f GF32 dv ts) as (f3 & -> & Hk); [exact Hne | discriminate | exact H |].
         cbn [strip_named] in Hk. rewrite marshal_kind_S in Hk. destruct dv; try discriminate Hk. inversion Hk; subst ts.
-        exists (VAny (Some (GF64, GVFlt bits))). split; [apply req_any_f32|]. split; [reflexivity|]. split.
+        exists (Some (GF64, GVFlt bits)). split; [intros t0; apply req_any_f32|]. split; [reflexivity|]. split.
         * intros rest. eapply uconv_S; [|apply uconv_const]. intros f'. rewrite unmarshal_any_S. reflexivity.
         * intros _ Hrv. discriminate Hrv.
       + (* float64 *)
-        destruct (marshal_plain f GF64 dv ts) as (f3 & -> & Hk); [discriminate | discriminate | exact H |].
+        destruct (marshal_plain f GF64 dv ts) as (f3 & -> & Hk); [exact Hne | discriminate | exact H |].
         cbn [strip_named] in Hk. rewrite marshal_kind_S in Hk. destruct dv; try discriminate Hk. inversion Hk; subst ts.
-        atom_same Hr.
+        atom_same Hr Hg.
         apply Hsame. intros rest. eapply uconv_S; [|apply uconv_const]. intros f'. rewrite unmarshal_any_S. reflexivity.
       + (* string *)
-        destruct (marshal_plain f GStr dv ts) as (f3 & -> & Hk); [discriminate | discriminate | exact H |].
+        destruct (marshal_plain f GStr dv ts) as (f3 & -> & Hk); [exact Hne | discriminate | exact H |].
         cbn [strip_named] in Hk. rewrite marshal_kind_S in Hk. destruct dv; try discriminate Hk. inversion Hk; subst ts.
-        atom_same Hr.
+        atom_same Hr Hg.
         apply Hsame. intros rest. eapply uconv_S; [|apply uconv_const]. intros f'. rewrite unmarshal_any_S. reflexivity.
       + (* []byte, not nil *)
-        destruct (marshal_plain f GBytes dv ts) as (f3 & -> & Hk); [discriminate | discriminate | exact H |].
+        destruct (marshal_plain f GBytes dv ts) as (f3 & -> & Hk); [exact Hne | discriminate | exact H |].
         cbn [strip_named] in Hk. rewrite marshal_kind_S in Hk. destruct dv; try discriminate Hk.
         destruct o as [s|]; [|discriminate Hnl]. inversion Hk; subst ts.
-        atom_same Hr.
+        atom_same Hr Hg.
         apply Hsame. intros rest. eapply uconv_S; [|apply uconv_const]. intros f'. rewrite unmarshal_any_S. reflexivity.
       + (* [n]byte comes back as []byte *)
-        destruct (marshal_plain f (GByteArr n) dv ts) as (f3 & -> & Hk); [discriminate | discriminate | exact H |].
+        destruct (marshal_plain f (GByteArr n) dv ts) as (f3 & -> & Hk); [exact Hne | discriminate | exact H |].
         cbn [strip_named] in Hk. rewrite marshal_kind_S in Hk. destruct dv; try discriminate Hk. inversion Hk; subst ts.
-        exists (VAny (Some (GBytes, VBytes (Some s)))). split; [apply req_any_bytearr|]. split; [|split].
+        exists (Some (GBytes, VBytes (Some s))). split; [intros t0; apply req_any_bytearr|]. split; [|split].
         * unfold wt in Hw. cbn [wtb strip_named] in Hw. apply andb_true_iff in Hw. unfold wt. cbn [wtb strip_named]. apply Hw.
         * intros rest. eapply uconv_S; [|apply uconv_const]. intros f'. rewrite unmarshal_any_S. reflexivity.
         * intros _ Hrv. discriminate Hrv.
       + (* []interface{} *)
-        destruct dt; cbn [any_ok] in Hany; rewrite ?Hg in Hany; try discriminate Hany.
-        destruct (marshal_plain f (GSlice GAny) dv ts) as (f3 & Hf & Hk); [discriminate | discriminate | exact H |].
+        destruct dt; try discriminate Hany.
+        destruct (marshal_plain f (GSlice GAny) dv ts) as (f3 & Hf & Hk); [exact Hne | discriminate | exact H |].
         cbn [strip_named] in Hk. rewrite marshal_kind_S in Hk. destruct dv; try discriminate Hk.
         destruct o as [l|]; [|discriminate Hnl].
         apply mprepend_ok in Hk. destruct Hk as (ts' & _ & Hts). subst ts.
         apply Hsame. intros rest. eapply uconv_S.
         * intros f'. cbn [app]. rewrite unmarshal_any_S. reflexivity.
         * apply (uconv_bind _ (fun _ x r' => UOk (VAny (Some (GSlice GAny, x))) r') dv' rest); [|apply uconv_const].
-          pose proof (uconv_plain (GSlice GAny) _ _ _ ltac:(discriminate) ltac:(discriminate) eq_refl (Hu rest)) as Hu1.
+          pose proof (uconv_plain (GSlice GAny) _ _ _ Hg ltac:(discriminate) eq_refl (Hu rest)) as Hu1.
           cbn [strip_named app] in Hu1.
           eapply uconv_pred; [|exact Hu1]. intros f'. cbv beta. rewrite unmarshal_kind_S. reflexivity.
       + (* map[string]interface{} *)
-        destruct dt1; cbn [any_ok] in Hany; rewrite ?Hg in Hany; try discriminate Hany.
-        destruct dt2; cbn [any_ok] in Hany; rewrite ?Hg in Hany; try discriminate Hany.
-        destruct (marshal_plain f (GMap GStr GAny) dv ts) as (f3 & Hf & Hk); [discriminate | discriminate | exact H |].
+        destruct dt1; try discriminate Hany. destruct dt2; try discriminate Hany.
+        destruct (marshal_plain f (GMap GStr GAny) dv ts) as (f3 & Hf & Hk); [exact Hne | discriminate | exact H |].
         cbn [strip_named] in Hk. rewrite marshal_kind_S in Hk. destruct dv; try discriminate Hk.
         destruct o as [es|]; [|discriminate Hnl].
-        destruct f3 as [|f4]; [discriminate|]. rewrite marshal_map_S in Hk.
-        destruct (map_stringer A GStr); [|discriminate]. cbv zeta in Hk. destruct (existsb _ _); [discriminate|].
-        apply mprepend_ok in Hk. destruct Hk as (ts' & _ & Hts). subst ts.
+        destruct (marshal_map_some_head _ _ _ _ _ _ _ Hk) as (d & r0 & Hts). subst ts.
         apply Hsame. intros rest. eapply uconv_S.
         * intros f'. cbn [app]. rewrite unmarshal_any_S.
           rewrite (unmarshal_map_cur E A f' GStr GAny (GVMap (Some [])) (zero_of E (GMap GStr GAny)))
             by (rewrite zero_of_map; reflexivity).
           reflexivity.
         * apply (uconv_bind _ (fun _ x r' => UOk (VAny (Some (GMap GStr GAny, x))) r') dv' rest); [|apply uconv_const].
-          pose proof (uconv_plain (GMap GStr GAny) _ _ _ ltac:(discriminate) ltac:(discriminate) eq_refl (Hu rest)) as Hu1.
+          pose proof (uconv_plain (GMap GStr GAny) _ _ _ Hg ltac:(discriminate) eq_refl (Hu rest)) as Hu1.
           cbn [strip_named app] in Hu1.
           eapply uconv_pred; [|exact Hu1]. intros f'. cbv beta. rewrite unmarshal_kind_S. reflexivity.
   Qed.
@@ -2237,7 +3084,7 @@ Section Main.
   (* ---- default behaviour by kind ---- *)
   Lemma step_kind f : P_marshal f -> P_items f -> P_map f -> P_kind (S f).
   Proof.
-    intros Hm Hi Hmap t v ts Hok H. pose proof Hok as [Hw Hdom].
+    intros Hm Hi Hmap t v ts Hok Hne H. pose proof Hok as [Hw Hdom].
     destruct (is_primk (strip_named t)) eqn:Hpk.
     - (* primitives *)
       assert (Hws : wt E A (strip_named t) v) by (apply wt_strip; exact Hw).
@@ -2254,14 +3101,16 @@ Section Main.
           (rmh -> rmv v = true -> marshal_kind A (S f) (strip_named t) v' = MOk ts)).
       { intros Ha o Hv. subst v. rewrite (marshal_kind_any f t o Ha) in H.
         destruct o as [[dt dv]|].
-        - unfold wt in Hw. rewrite (wtb_any t _ Ha) in Hw. rewrite (domb_any t dt dv Ha) in Hdom.
-          apply andb_true_iff in Hdom. destruct Hdom as [Hdd Hany].
-          destruct (step_any f Hm dt dv ts (conj Hw Hdd) Hany H) as (w & Hr & Hww & Hu & Hmw).
-          assert (Hwo : exists o', w = VAny o').
-          { inversion Hr; subst; eauto. }
-          destruct Hwo as [o' ->].
+        - unfold wt in Hw. rewrite (wtb_any t _ Ha) in Hw. destruct (domb_any t dt dv Ha Hdom) as [Hdd Hso].
+          assert (Hany : (nullish dv || any_ok A dt) = true).
+          { unfold slot_ok in Hso.
+            assert (Hnu : is_union A t = false).
+            { unfold is_union. destruct Hne as [Hup | Hg]; [|rewrite Hg; reflexivity].
+              rewrite (prim_no_entry t Hup). reflexivity. }
+            rewrite Hnu in Hso. cbn [orb] in Hso. apply andb_true_iff in Hso. apply Hso. }
+          destruct (step_any f Hm dt dv ts (conj Hw Hdd) Hany H) as (o' & Hr & Hww & Hu & Hmw).
           exists (VAny o'). split; [|split; [|split]].
-          + inversion Hr; subst; try discriminate; constructor; assumption.
+          + apply Hr.
           + unfold wt. rewrite (wtb_any t _ Ha). exact Hww.
           + intros cur rest _. eapply uconv_S; [|apply (Hu rest)]. intros f'. apply (unmarshal_kind_any f' t cur _ Ha).
           + intros Hrm Hrv. rewrite (marshal_kind_any f t o' Ha).
@@ -2277,7 +3126,7 @@ Section Main.
         destruct o as [l|].
         * apply mprepend_ok in H. destruct H as (ts' & H & Hts). subst ts.
           assert (Hwl : Forall (okv et) l).
-          { unfold wt in Hw. rewrite (wtb_slice t et _ Hs) in Hw. rewrite (domb_slice t et _ Hs) in Hdom.
+          { unfold wt in Hw. rewrite (wtb_slice t et _ Hs) in Hw. pose proof (domb_slice t et _ Hs Hdom).
             apply okv_list; assumption. }
           destruct (Hi et l ts' Hwl H) as (l' & Hf2 & Hus & _ & Hml).
           exists (VSlice (Some l')). split; [|split; [|split]].
@@ -2292,8 +3141,8 @@ Section Main.
       + (* array *)
         apply mprepend_ok in H. destruct H as (ts' & H & Hts). subst ts.
         unfold wt in Hw. rewrite (wtb_arr t n et _ Hs) in Hw. apply andb_true_iff in Hw. destruct Hw as [Hlen Hwl].
-        apply Nat.eqb_eq in Hlen. rewrite (domb_arr t n et _ Hs) in Hdom.
-        destruct (Hi et l ts' (okv_list et l Hwl Hdom) H) as (l' & Hf2 & _ & Hua & Hml).
+        apply Nat.eqb_eq in Hlen. pose proof (domb_arr t n et _ Hs Hdom) as Hdl.
+        destruct (Hi et l ts' (okv_list et l Hwl Hdl) H) as (l' & Hf2 & _ & Hua & Hml).
         exists (GVArr l'). split; [|split; [|split]].
         -- eapply req_arr; [exact Hs|]. eapply Forall2_imp; [|exact Hf2]. intros x y [Hxy _]. exact Hxy.
         -- unfold wt. rewrite (wtb_arr t n et _ Hs). rewrite <- (Forall2_length' _ _ _ Hf2), Hlen, Nat.eqb_refl.
@@ -2316,18 +3165,13 @@ Section Main.
         destruct (Hanyc (or_intror (ex_intro _ id Hs)) o eq_refl) as (v' & Hx). exists v'. exact Hx.
   Qed.
 
-  Lemma sk_strs (es'' : list (bytes * gval)) :
-    sk (map (fun p => (GVStr (fst p), snd p)) es'') = es''.
+  Lemma NoDup_map_inj_in {X Y} (g : X -> Y) (l : list X) :
+    NoDup l -> (forall a b, In a l -> In b l -> g a = g b -> a = b) -> NoDup (map g l).
   Proof.
-    unfold sk. rewrite map_map. cbn. induction es'' as [|[k x] r IH]; [reflexivity|]. cbn. rewrite IH. reflexivity.
-  Qed.
-
-  Lemma keyed_strs_ok (es'' : list (bytes * gval)) :
-    existsb (fun p : option bytes * gval => match fst p with None => true | Some _ => false end)
-            (map_keyed str_stringer (map (fun p => (GVStr (fst p), snd p)) es'')) = false.
-  Proof.
-    apply existsb_false. intros p Hin. unfold map_keyed in Hin. rewrite map_map in Hin.
-    apply in_map_iff in Hin. destruct Hin as (q & <- & _). reflexivity.
+    induction 1 as [|x l Hn Hd IH]; intros Hinj; [constructor|]. cbn. constructor.
+    - intros Hin. apply in_map_iff in Hin. destruct Hin as (y & Hq & Hy).
+      assert (y = x) by (apply Hinj; [right; exact Hy | left; reflexivity | exact Hq]). subst. contradiction.
+    - apply IH. intros a b Ha Hb. apply Hinj; right; assumption.
   Qed.
 
   (* ---- maps ---- *)
@@ -2335,70 +3179,114 @@ Section Main.
   Proof.
     intros He mode t kt vt o ts Hs [Hw Hdom] H. rewrite marshal_map_S in H.
     destruct (map_stringer A kt) as [str|] eqn:Hstr; [|discriminate].
-    destruct (stringer_strings E A kt str Hwf Hstr) as (Hk & -> & Hdes).
+    destruct (stringer_facts E A kt str Hwf Hstr) as (destr & Hdes & Hfw & Hbw).
     cbv zeta in H. destruct (existsb _ _) eqn:Hex; [discriminate|].
     destruct o as [es|].
     - apply mprepend_ok in H. destruct H as (ts' & H & Hts). subst ts.
-      rewrite sorted_str_eq in H.
+      rewrite sorted_skg in H.
       unfold wt in Hw. rewrite (wtb_map t kt vt _ Hs) in Hw.
       apply andb_true_iff in Hw. destruct Hw as [Hw Hkd]. apply andb_true_iff in Hw. destruct Hw as [_ Hwe].
       rewrite forallb_forall in Hwe.
-      rewrite (domb_map t kt vt _ Hs) in Hdom. rewrite forallb_forall in Hdom.
+      pose proof (domb_map t kt vt _ Hs Hdom) as Hdm. rewrite forallb_forall in Hdm.
+      set (kf := fun s : bytes => match destr s with Some k => k | None => VBadV end).
+      (* every key has its string, and the string gives the key back *)
+      assert (Hk0 : forall kv, In kv es ->
+                str (fst kv) = Some (s_of str (fst kv)) /\ destr (s_of str (fst kv)) = Some (fst kv) /\
+                gval_key_eqb (fst kv) (fst kv) = true).
+      { intros kv Hin. assert (Hsome : exists s, str (fst kv) = Some s).
+        { destruct (str (fst kv)) as [s|] eqn:Hq; [eauto|]. exfalso.
+          assert (Hc : existsb (fun p : option bytes * gval => match fst p with None => true | Some _ => false end)
+                               (map_keyed str es) = true).
+          { apply existsb_exists. exists (str (fst kv), snd kv).
+            split; [unfold map_keyed; apply in_map_iff; exists kv; auto | cbn; rewrite Hq; reflexivity]. }
+          congruence. }
+        destruct Hsome as [s Hq]. unfold s_of. rewrite Hq.
+        specialize (Hdm kv Hin). apply andb_true_iff in Hdm. destruct Hdm as [Hkd' _].
+        destruct (Hfw (fst kv) s Hkd' Hq). auto. }
       assert (Hwk : forall kv, In kv es -> wt E A kt (fst kv)).
       { intros kv Hin. specialize (Hwe kv Hin). apply andb_true_iff in Hwe. apply Hwe. }
       assert (Hwv : forall kv, In kv es -> okv vt (snd kv)).
-      { intros kv Hin. specialize (Hwe kv Hin). apply andb_true_iff in Hwe. split; [apply Hwe | apply Hdom; exact Hin]. }
-      set (sorted := sort_keys (key_ltb mode) (sk es)) in *.
-      assert (Hperm : Permutation sorted (sk es)) by apply sort_keys_perm.
+      { intros kv Hin. specialize (Hwe kv Hin). apply andb_true_iff in Hwe.
+        specialize (Hdm kv Hin). apply andb_true_iff in Hdm. split; [apply Hwe | apply Hdm]. }
+      set (sorted := sort_keys (key_ltb mode) (skg str es)) in *.
+      assert (Hperm : Permutation sorted (skg str es)) by apply sort_keys_perm.
+      (* an element of the sorted list comes from an entry *)
+      assert (Hfrom : forall p, In p sorted -> exists kv, In kv es /\ fst p = s_of str (fst kv) /\ snd p = snd kv).
+      { intros p Hp. apply (Permutation_in _ Hperm) in Hp. unfold skg in Hp. apply in_map_iff in Hp.
+        destruct Hp as (kv & <- & Hkv). exists kv. auto. }
       assert (Hws : Forall (fun p => okv vt (snd p)) sorted).
-      { apply Forall_forall. intros p Hp. apply (Permutation_in _ Hperm) in Hp.
-        unfold sk in Hp. apply in_map_iff in Hp. destruct Hp as (kv & <- & Hkv). cbn. apply Hwv. exact Hkv. }
+      { apply Forall_forall. intros p Hp. destruct (Hfrom p Hp) as (kv & Hkv & _ & ->). apply Hwv. exact Hkv. }
       destruct (He vt sorted ts' Hws H) as (es'' & Hf2 & Hue & Hme).
       assert (Hkeys : map fst es'' = map fst sorted).
       { clear -Hf2. induction Hf2 as [|p p' l l' (Hq & _) _ IH]; [reflexivity|]. cbn. rewrite IH, Hq. reflexivity. }
+      assert (Hndk : NoDup (map fst es)).
+      { apply keys_distinct_NoDup; [|exact Hkd]. intros k Hin. apply in_map_iff in Hin.
+        destruct Hin as (kv & <- & Hkv). apply Hk0. exact Hkv. }
       assert (Hnd : NoDup (map fst sorted)).
       { eapply Permutation_NoDup; [apply Permutation_sym; apply Permutation_map; exact Hperm|].
-        eapply keys_distinct_NoDup; eassumption. }
+        unfold skg. rewrite map_map. cbn [fst]. rewrite <- (map_map fst (s_of str)).
+        apply NoDup_map_inj_in; [exact Hndk|].
+        intros k1 k2 H1 H2 Hq. apply in_map_iff in H1. destruct H1 as (kv1 & <- & Hkv1).
+        apply in_map_iff in H2. destruct H2 as (kv2 & <- & Hkv2).
+        destruct (Hk0 kv1 Hkv1) as (_ & Hd1 & _). destruct (Hk0 kv2 Hkv2) as (_ & Hd2 & _). congruence. }
+      (* the strings of the sorted list decode to the keys *)
+      assert (Hdk : forall s, In s (map fst sorted) -> exists kv, In kv es /\ s = s_of str (fst kv) /\ kf s = fst kv /\
+                                                               destr s = Some (fst kv) /\ str (fst kv) = Some s).
+      { intros s0 Hin. apply in_map_iff in Hin. destruct Hin as (p & <- & Hp).
+        destruct (Hfrom p Hp) as (kv & Hkv & Hq & _). destruct (Hk0 kv Hkv) as (Hs1 & Hd1 & _).
+        exists kv. unfold kf. rewrite Hq, Hd1. auto. }
       assert (Hlen : length es'' = length es).
-      { rewrite <- (Forall2_length' _ _ _ Hf2). unfold sorted. rewrite sort_keys_length. unfold sk. apply map_length. }
-      set (es' := map (fun p : bytes * gval => (GVStr (fst p), snd p)) es'').
+      { rewrite <- (Forall2_length' _ _ _ Hf2). unfold sorted. rewrite sort_keys_length. unfold skg. apply map_length. }
+      set (es' := map (fun p : bytes * gval => (kf (fst p), snd p)) es'').
       exists (Some es'). split; [|split; [|split]].
       + eapply req_map; [exact Hs | unfold es'; rewrite map_length; symmetry; exact Hlen |].
         intros k x Hin.
-        destruct (wt_string_kind E A kt k Hk (Hwk (k, x) Hin)) as [s ->].
-        assert (Hin' : In (s, x) sorted).
-        { apply (Permutation_in _ (Permutation_sym Hperm)). unfold sk. apply in_map_iff. exists (GVStr s, x). auto. }
+        assert (Hin' : In (s_of str k, x) sorted).
+        { apply (Permutation_in _ (Permutation_sym Hperm)). unfold skg. apply in_map_iff. exists (k, x). auto. }
         destruct (Forall2_In_l _ _ _ _ Hf2 Hin') as ([s' x'] & Hin'' & Hq & Hr & _). cbn in Hq, Hr. subst s'.
-        exists x'. split; [|exact Hr]. unfold es'. apply in_map_iff. exists (s, x'). auto.
-      + unfold wt. rewrite (wtb_map t kt vt _ Hs), Hk. cbn [andb]. apply andb_true_iff. split.
+        exists x'. split; [|exact Hr]. unfold es'. apply in_map_iff. exists (s_of str k, x'). split; [|exact Hin''].
+        cbn [fst snd]. f_equal. unfold kf. destruct (Hk0 (k, x) Hin) as (_ & Hd1 & _). cbn [fst] in Hd1. rewrite Hd1. reflexivity.
+      + unfold wt. rewrite (wtb_map t kt vt _ Hs). unfold stringer_ok. rewrite Hstr. cbn [andb]. apply andb_true_iff. split.
         * apply forallb_forall. intros kv Hin. unfold es' in Hin. apply in_map_iff in Hin.
-          destruct Hin as ([s x'] & <- & Hin). cbn [fst snd].
-          destruct (Forall2_In_r _ _ _ _ Hf2 Hin) as ([s0 x] & Hin0 & Hq & _ & Hwx'). cbn in Hq, Hwx'. subst s0.
+          destruct Hin as ([s0 x'] & <- & Hin). cbn [fst snd].
+          destruct (Forall2_In_r _ _ _ _ Hf2 Hin) as ([s1 x] & Hin0 & Hq & _ & Hwx'). cbn in Hq, Hwx'. subst s1.
           rewrite Hwx', andb_true_r.
-          apply (Permutation_in _ Hperm) in Hin0. unfold sk in Hin0. apply in_map_iff in Hin0.
-          destruct Hin0 as ([k0 x0] & Hq0 & Hin0). cbn in Hq0. inversion Hq0; subst.
-          destruct (wt_string_kind E A kt k0 Hk (Hwk (k0, x) Hin0)) as [s' ->]. cbn.
-          apply (Hwk (GVStr s', x) Hin0).
-        * unfold es'. rewrite map_map. cbn [fst].
-          rewrite <- (map_map fst GVStr). apply keys_distinct_strs. rewrite Hkeys. exact Hnd.
+          destruct (Hdk s0) as (kv & Hkv & _ & Hkf & _); [apply in_map_iff; exists (s0, x); auto|].
+          rewrite Hkf. apply Hwk. exact Hkv.
+        * unfold es'. rewrite map_map. cbn [fst]. rewrite <- (map_map fst kf).
+          apply keys_distinct_pairwise. rewrite Hkeys. apply NoDup_map_inj_in; [exact Hnd|].
+          intros s1 s2 H1 H2 Hq. destruct (Hdk s1 H1) as (kv1 & _ & Hs1 & Hkf1 & _).
+          destruct (Hdk s2 H2) as (kv2 & _ & Hs2 & Hkf2 & _). congruence.
       + intros cur rest Hb. eapply uconv_S.
         * intros f'. rewrite unmarshal_map_S, Hdes. cbn [app]. cbv zeta.
           replace (match cur with GVMap (Some es0) => es0 | _ => [] end) with (@nil (gval * gval))
             by (destruct cur; try reflexivity; destruct o; [discriminate | reflexivity]).
           reflexivity.
-        * apply (Hue (fun s => Some (GVStr s)) GVStr [] rest).
-          -- intros p _. reflexivity.
+        * apply (Hue destr kf [] rest).
+          -- intros p Hp. destruct (Hdk (fst p)) as (kv & _ & _ & Hkf & Hd1 & _); [apply in_map; exact Hp|].
+             rewrite Hkf. exact Hd1.
           -- exact Hnd.
           -- intros p q _ [].
-          -- intros p q _ _ Hne. cbn. destruct (bytes_eqb (fst q) (fst p)) eqn:Hq; [|reflexivity].
-             apply bytes_eqb_eq in Hq. congruence.
+          -- intros p q Hp Hq Hne. destruct (gval_key_eqb (kf (fst q)) (kf (fst p))) eqn:Hqq; [|reflexivity].
+             apply gval_key_eqb_eq in Hqq. exfalso. apply Hne.
+             destruct (Hdk (fst p)) as (kv1 & _ & Hs1 & Hkf1 & _); [apply in_map; exact Hp|].
+             destruct (Hdk (fst q)) as (kv2 & _ & Hs2 & Hkf2 & _); [apply in_map; exact Hq|]. congruence.
       + intros Hrm Hrv. rewrite marshal_map_S, Hstr. cbv zeta.
-        unfold es'. rewrite keyed_strs_ok. rewrite sorted_str_eq, sk_strs.
-        rewrite (sort_keys_id (key_ltb mode) es'').
-        * rewrite map_length, Hlen, (Hme Hrm); [reflexivity|].
+        assert (Hstr' : forall p, In p es'' -> str (kf (fst p)) = Some (fst p)).
+        { intros p Hp. destruct (Hdk (fst p)) as (kv & _ & _ & Hkf & _ & Hs1); [rewrite <- Hkeys; apply in_map; exact Hp|].
+          rewrite Hkf. exact Hs1. }
+        assert (Hex' : existsb (fun p : option bytes * gval => match fst p with None => true | Some _ => false end)
+                               (map_keyed str es') = false).
+        { apply existsb_false. intros p Hin. unfold map_keyed, es' in Hin. rewrite map_map in Hin.
+          apply in_map_iff in Hin. destruct Hin as (q & <- & Hq). cbn [fst snd]. rewrite (Hstr' q Hq). reflexivity. }
+        rewrite Hex'. rewrite sorted_skg.
+        assert (Hsk : skg str es' = es'').
+        { unfold skg, es'. rewrite map_map. cbn [fst snd]. rewrite <- (map_id es'') at 2. apply map_ext_in.
+          intros [s0 x0] Hp. unfold s_of. rewrite (Hstr' (s0, x0) Hp). reflexivity. }
+        rewrite Hsk. rewrite (sort_keys_id (key_ltb mode) es'').
+        * unfold es'. rewrite map_length, Hlen, (Hme Hrm); [reflexivity|].
           cbn [rmv] in Hrv. rewrite forallb_forall in Hrv. apply forallb_forall. intros p Hp.
-          apply (Permutation_in _ Hperm) in Hp. unfold sk in Hp. apply in_map_iff in Hp.
-          destruct Hp as (kv & <- & Hkv). cbn. apply Hrv. exact Hkv.
+          destruct (Hfrom p Hp) as (kv & Hkv & _ & ->). apply Hrv. exact Hkv.
         * eapply ksorted_keys; [symmetry; exact Hkeys|]. apply sort_keys_sorted. apply key_ltb_asym.
     - inversion H; subst ts. exists None. split; [apply req_atom; reflexivity|]. split; [exact Hw|]. split.
       + intros cur rest _. eapply uconv_S; [|apply uconv_const]. intros f'.
@@ -2483,11 +3371,17 @@ Section Main.
   Proof. reflexivity. Qed.
 
   (* ---- structs through their atlas entry ---- *)
-  Lemma step_entry f : P_fields f -> P_entry (S f).
+  Lemma step_entry_struct f : P_fields f ->
+    forall e fields, ae_kind e = EStruct fields ->
+    forall v ts, atlas_get A (ae_type e) = Some e -> okv (ae_type e) v ->
+      marshal_entry A (S f) e v = MOk ts ->
+    exists v', req E A (ae_type e) v v' /\ wt E A (ae_type e) v' /\
+      (forall rest, uconv (fun f' => unmarshal_entry E A f' e (zero_of E (ae_type e)) (ts ++ rest)) (UOk v' rest)) /\
+      (rmh -> rmv v = true -> marshal_entry A (S f) e v' = MOk ts).
   Proof.
-    intros Hf e v ts Hg Hokv H. pose proof Hokv as [Hw Hdomv].
+    intros Hf e fields Hkd v ts Hg Hokv H. pose proof Hokv as [Hw Hdomv].
     destruct (atlas_wf_entry E A _ e Hwf Hg) as [He _].
-    destruct (entry_wf_struct E e He) as (fields & id & Hkd & Hs & Hnb & Hfw & Hnd & Hro).
+    destruct (entry_wf_struct E A e fields He Hkd) as (id & Hs & Hnb & Hfw & Hnd & Hro).
     rewrite marshal_entry_S, Hkd in H. cbv zeta in H.
     apply mprepend_ok in H. destruct H as (ts' & H & Hts). subst ts.
     rewrite live_fields_eq in H.
@@ -2569,6 +3463,139 @@ Section Main.
       rewrite Hsame, (Hmf Hrm Hrvv). reflexivity.
   Qed.
 
+  (* ---- a rendering that starts with an untagged token ---- *)
+  Lemma native_slot_nonptr dt : native_slot A dt = true -> (forall t', dt <> GPtr t') /\ noentry A dt /\
+    strip_named dt <> GAny /\ (forall i, strip_named dt <> GIface i).
+  Proof.
+    unfold native_slot. intros H.
+    destruct (is_unnamed_prim dt) eqn:Hup.
+    - repeat split; [intros t' Hc; subst; discriminate | left; exact Hup | |];
+        rewrite (unnamed_prim_primk0 dt Hup); destruct dt; discriminate.
+    - cbn [orb] in H. destruct (atlas_get A dt) eqn:Hg; [discriminate|].
+      repeat split; [intros t' Hc; subst; discriminate | right; exact Hg | |]; destruct dt; try discriminate.
+  Qed.
+
+  Lemma head_untagged f wire w ts1 :
+    head_plain A wire = true -> (forall t', wire <> GPtr t') -> okv wire w -> slot_untagged A w = true ->
+    marshal A f wire w = MOk ts1 -> exists tk r, ts1 = Tok tk None :: r.
+  Proof.
+    intros Hhp Hnp [Hw Hd] Hsu H.
+    destruct f as [|f0]; [discriminate|]. rewrite marshal_S, (peel_nonptr wire Hnp) in H. cbn [deref] in H.
+    destruct f0 as [|f1]; [discriminate|]. rewrite marshal_bare_S in H.
+    unfold head_plain in Hhp.
+    destruct (is_unnamed_prim wire) eqn:Hup.
+    { apply (kind_head_untagged A f1 wire w ts1 H); destruct wire; discriminate. }
+    cbn [orb] in Hhp.
+    destruct (atlas_get A wire) as [e'|] eqn:Hg.
+    - destruct f1 as [|f2]; [discriminate|]. rewrite marshal_entry_S in H.
+      destruct (ae_kind e') as [fields|kind wire'|members|mode] eqn:Hkd.
+      + destruct (ae_tag e') eqn:Htg; [discriminate Hhp|]. cbv zeta in H.
+        apply mprepend_ok in H. destruct H as (ts' & _ & ->). cbn [app]. eauto.
+      + discriminate Hhp.
+      + destruct w; try discriminate H. destruct o as [[mt mv]|]; [|discriminate H].
+        destruct (find _ members) as [[name ?]|]; [|discriminate H].
+        destruct (atlas_get A mt); [|discriminate H].
+        apply wrap_union_ok in H. destruct H as (ts' & _ & ->). cbn [app]. eauto.
+      + destruct (strip_named (ae_type e')); try discriminate H. destruct w; try discriminate H.
+        destruct o as [es|].
+        * destruct (marshal_map_some_head _ _ _ _ _ _ _ H) as (d & r & ->). eauto.
+        * rewrite (marshal_map_nil _ _ _ _ _ _ H). eauto.
+    - destruct (strip_named wire) eqn:Hs;
+        try (apply (kind_head_untagged A f1 _ w ts1 H); discriminate).
+      + (* an untyped slot *)
+        destruct f1 as [|f2]; [discriminate|]. rewrite marshal_kind_S in H.
+        destruct w; try discriminate H. destruct o as [[dt dv]|]; [|inversion H; eauto].
+        unfold wt in Hw. cbn [wtb] in Hw. rewrite Hs in Hw.
+        cbn [slot_untagged] in Hsu. destruct (nullish dv) eqn:Hnl.
+        * rewrite (marshal_nullish E A Hwf f2 dt dv ts1 Hw Hnl H). eauto.
+        * cbn [orb] in Hsu. destruct (native_slot_nonptr dt Hsu) as (Hnpd & Hne & Ha & Hi).
+          destruct (marshal_plain f2 dt dv ts1 Hne Hnpd H) as (f3 & _ & Hk).
+          apply (kind_head_untagged A _ _ _ _ Hk Ha Hi).
+      + (* an interface type without entry: like an untyped slot *)
+        destruct f1 as [|f2]; [discriminate|]. rewrite marshal_kind_S in H.
+        destruct w; try discriminate H. destruct o as [[dt dv]|]; [|inversion H; eauto].
+        unfold wt in Hw. cbn [wtb] in Hw. rewrite Hs in Hw.
+        cbn [slot_untagged] in Hsu. destruct (nullish dv) eqn:Hnl.
+        * rewrite (marshal_nullish E A Hwf f2 dt dv ts1 Hw Hnl H). eauto.
+        * cbn [orb] in Hsu. destruct (native_slot_nonptr dt Hsu) as (Hnpd & Hne & Ha & Hi).
+          destruct (marshal_plain f2 dt dv ts1 Hne Hnpd H) as (f3 & _ & Hk).
+          apply (kind_head_untagged A _ _ _ _ Hk Ha Hi).
+  Qed.
+
+  (* ---- the four kinds of atlas entries ---- *)
+  Lemma step_entry f : P_marshal f -> P_map f -> P_entry f -> P_fields f -> P_entry (S f).
+  Proof.
+    intros Hm Hmap Hen Hf e v ts Hg Hokv H. pose proof Hokv as [Hw Hdomv].
+    destruct (atlas_wf_entry E A _ e Hwf Hg) as [He _].
+    destruct (ae_kind e) as [fields|kind wire|members|mode] eqn:Hkd.
+    - (* struct map *)
+      eapply step_entry_struct; eassumption.
+    - (* transform *)
+      rewrite marshal_entry_S, Hkd in H.
+      destruct (tr_fwd kind v) as [w|] eqn:Hfw; [|discriminate].
+      apply wrap_transform_ok in H. destruct H as (ts1 & H1 & ->).
+      destruct (entry_wf_transform E A e kind wire He Hkd) as (Hty & Hup & Hnt & Htagp).
+      pose proof (tr_types_wire_nonptr E kind _ wire Hty) as Hwnp.
+      pose proof (tr_fwd_dom E A Hwf e kind wire v w Hg Hkd Hokv Hfw) as Hokw.
+      destruct (Hm wire w ts1 Hokw H1) as (w' & Hrw & Hww' & Huw & Hmw).
+      pose proof (domb_entry E A _ v Hdomv) as Hde. unfold dom_entry in Hde. rewrite Hg, Hkd in Hde.
+      apply andb_true_iff in Hde. destruct Hde as [Hdm Hsu].
+      destruct (tr_bwd_defined E A kind _ wire v w w' Hty Hnt Hdm Hfw Hrw Hww') as [v' Hbw].
+      destruct (tr_fwd_bwd kind w' v' Hbw) as [Hfw' Hdm'].
+      assert (Hhead : ae_tag e = None \/ exists tk r, ts1 = Tok tk None :: r).
+      { destruct (ae_tag e) as [tg|] eqn:Htg; [right | left; reflexivity].
+        rewrite Hfw in Hsu. eapply head_untagged; [eapply Htagp; reflexivity | exact Hwnp | exact Hokw | exact Hsu | exact H1]. }
+      exists v'. split; [|split; [|split]].
+      + eapply req_transform; eassumption.
+      + eapply tr_bwd_wt; eassumption.
+      + intros rest. eapply uconv_S.
+        * intros f'. rewrite unmarshal_entry_S, Hkd. rewrite (untag_retag (ae_tag e) ts1 rest Hhead). reflexivity.
+        * apply (uconv_bind _ (fun _ w0 r => match tr_bwd kind w0 with Some x => UOk x r | None => UErr (S (length r)) end) w' rest).
+          -- eapply uconv_pred; [|apply (Huw rest)]. intros f'. cbv beta. rewrite unmarshal_S, (peel_nonptr wire Hwnp). reflexivity.
+          -- rewrite Hbw. apply uconv_const.
+      + intros Hrm Hrv. rewrite marshal_entry_S, Hkd, Hfw'.
+        rewrite (Hmw Hrm (tr_fwd_rmv kind v w Hfw Hrv)). reflexivity.
+    - (* keyed union *)
+      rewrite marshal_entry_S, Hkd in H.
+      destruct v; try discriminate H. destruct o as [[mt mv]|]; [|discriminate H].
+      destruct (find _ members) as [[name mt0]|] eqn:Hfd; [|discriminate H].
+      destruct (find_member_type _ _ _ _ Hfd) as [-> Hin].
+      destruct (atlas_get A mt) as [me|] eqn:Hgm; [|discriminate H].
+      apply wrap_union_ok in H. destruct H as (ts1 & H1 & ->).
+      destruct (entry_wf_union E A e members He Hkd) as ([i Hs] & Hnd & _).
+      pose proof (atlas_get_type A mt me Hgm) as Hmt.
+      assert (Hokm : okv (ae_type me) mv).
+      { rewrite Hmt. split.
+        - unfold wt in Hw. cbn [wtb] in Hw. rewrite Hs in Hw. exact Hw.
+        - cbn [domb] in Hdomv. rewrite Hs in Hdomv. apply andb_true_iff in Hdomv. destruct Hdomv as [_ Hd].
+          apply andb_true_iff in Hd. apply Hd. }
+      assert (Hgm' : atlas_get A (ae_type me) = Some me) by (rewrite Hmt; exact Hgm).
+      destruct (Hen me mv ts1 Hgm' Hokm H1) as (mv' & Hr & Hw' & Hu & Hmm). rewrite Hmt in *.
+      exists (VAny (Some (mt, mv'))). split; [|split; [|split]].
+      + apply req_any. exact Hr.
+      + unfold wt. cbn [wtb]. rewrite Hs. exact Hw'.
+      + intros rest. eapply uconv_S.
+        * intros f'. rewrite unmarshal_entry_S, Hkd. cbn [app]. cbn [Z.eqb orb].
+          rewrite (find_member_name members name mt Hnd Hin), Hgm. rewrite <- app_assoc. reflexivity.
+        * apply (uconv_bind _ (fun _ mv0 r3 => match r3 with
+                                               | [] => UStarved
+                                               | Tok MapClose _ :: r4 => UOk (VAny (Some (mt, mv0))) r4
+                                               | _ => UErr (length r3)
+                                               end) mv' ([Tok MapClose None] ++ rest)); [apply Hu | apply uconv_const].
+      + intros Hrm Hrv. rewrite marshal_entry_S, Hkd, Hfd, Hgm.
+        cbn [rmv] in Hrv. apply andb_true_iff in Hrv. destruct Hrv as [_ Hrv]. rewrite (Hmm Hrm Hrv). reflexivity.
+    - (* map morphism *)
+      rewrite marshal_entry_S, Hkd in H.
+      destruct (entry_wf_morphism E A e mode He Hkd) as (kt & vt & Hs). rewrite Hs in H.
+      destruct v; try discriminate H.
+      destruct (Hmap mode (ae_type e) kt vt o ts Hs Hokv H) as (o' & Hr & Hw' & Hu & Hmm).
+      exists (GVMap o'). split; [exact Hr|]. split; [exact Hw'|]. split.
+      + intros rest. eapply uconv_S; [|apply (Hu (zero_of E (ae_type e)) rest)].
+        * intros f'. rewrite unmarshal_entry_S, Hkd, Hs. reflexivity.
+        * rewrite zero_of_unf. apply mblank_zero.
+      + intros Hrm Hrv. rewrite marshal_entry_S, Hkd, Hs. apply Hmm; assumption.
+  Qed.
+
   Lemma P_step f : P_all f -> P_all (S f).
   Proof.
     intros (Hm & Hb & Hk & Hi & He & Hmap & Hen & Hf).
@@ -2624,51 +3651,50 @@ Fixpoint plain_type (t : gtype) : bool :=
   | _ => false
   end.
 
-Section gval_ind.
-  Variable P : gval -> Prop.
-  Hypothesis Hbool : forall b, P (GVBool b).
-  Hypothesis Hnum : forall z, P (VNum z).
-  Hypothesis Hflt : forall b, P (GVFlt b).
-  Hypothesis Hstr : forall s, P (GVStr s).
-  Hypothesis Hbytes : forall o, P (VBytes o).
-  Hypothesis Hbytearr : forall s, P (VByteArr s).
-  Hypothesis Hslice_nil : P (VSlice None).
-  Hypothesis Hslice : forall l, Forall P l -> P (VSlice (Some l)).
-  Hypothesis Harr : forall l, Forall P l -> P (GVArr l).
-  Hypothesis Hmap_nil : P (GVMap None).
-  Hypothesis Hmap : forall es, Forall (fun kv => P (fst kv) /\ P (snd kv)) es -> P (GVMap (Some es)).
-  Hypothesis Hptr_nil : P (VPtr None).
-  Hypothesis Hptr : forall x, P x -> P (VPtr (Some x)).
-  Hypothesis Hany_nil : P (VAny None).
-  Hypothesis Hany : forall t x, P x -> P (VAny (Some (t, x))).
-  Hypothesis Hstruct : forall l, Forall P l -> P (VStruct l).
-  Hypothesis Hbad : P VBadV.
-
-  Fixpoint gval_ind' (v : gval) : P v.
-  Proof.
-    destruct v as [b|z|b|s|o|s|o|l|o|o|o|l|].
-    - apply Hbool. - apply Hnum. - apply Hflt. - apply Hstr. - apply Hbytes. - apply Hbytearr.
-    - destruct o as [l|]; [|apply Hslice_nil]. apply Hslice.
-      induction l as [|x l IH]; constructor; [apply gval_ind' | exact IH].
-    - apply Harr. induction l as [|x l IH]; constructor; [apply gval_ind' | exact IH].
-    - destruct o as [es|]; [|apply Hmap_nil]. apply Hmap.
-      induction es as [|[k x] es IH]; constructor; [split; apply gval_ind' | exact IH].
-    - destruct o as [x|]; [|apply Hptr_nil]. apply Hptr. apply gval_ind'.
-    - destruct o as [[t x]|]; [|apply Hany_nil]. apply Hany. apply gval_ind'.
-    - apply Hstruct. induction l as [|x l IH]; constructor; [apply gval_ind' | exact IH].
-    - apply Hbad.
-  Defined.
-End gval_ind.
 
 Lemma plain_strip t : plain_type t = true -> plain_type (strip_named t) = true.
 Proof. induction t; cbn; auto. Qed.
 
+(* atlases without transform entries: the entry-specific parts of the domain are trivial *)
+Definition no_tr (A : atlas) : Prop :=
+  forall t e, atlas_get A t = Some e -> match ae_kind e with ETransform _ _ => False | _ => True end.
+
+Lemma no_tr_empty mode : no_tr (Atlas [] mode).
+Proof. intros t e H. discriminate H. Qed.
+
+Lemma no_tr_struct_only A : struct_only A = true -> no_tr A.
+Proof.
+  intros H t e Hg. apply atlas_get_In in Hg. unfold struct_only in H. rewrite forallb_forall in H.
+  specialize (H e Hg). destruct (ae_kind e); try discriminate; exact I.
+Qed.
+
+Lemma no_tr_dom_entry A t v : no_tr A -> dom_entry A t v = true.
+Proof.
+  intros H. unfold dom_entry. destruct (atlas_get A t) as [e|] eqn:Hg; [|reflexivity].
+  specialize (H t e Hg). destruct (ae_kind e); try reflexivity; contradiction.
+Qed.
+
+Lemma no_tr_key_dom A kt k : no_tr A -> key_dom A kt k = true.
+Proof.
+  intros H. unfold key_dom. destruct (is_string_kind kt); [reflexivity|].
+  destruct (atlas_get A kt) as [e|] eqn:Hg; [|reflexivity].
+  specialize (H kt e Hg). destruct (ae_kind e); try reflexivity; contradiction.
+Qed.
+
+Lemma no_tr_null_form A t v : no_tr A -> null_form A t v = false.
+Proof.
+  intros H. unfold null_form. destruct (peel t) as [n base]. destruct (deref n v); [|reflexivity].
+  destruct (atlas_get A base) as [e|] eqn:Hg; [|reflexivity].
+  specialize (H base e Hg). destruct (ae_kind e); try reflexivity; contradiction.
+Qed.
+
 (* values of stage-1 types hold no interface values: they are in the domain, and native *)
-Lemma plain_dom E A : forall v t,
+Lemma plain_dom E A : no_tr A -> forall v t,
   plain_type t = true -> wt E A t v -> domb E A t v = true /\ rmv v = true.
 Proof.
-  intros v. induction v using gval_ind'; intros ty Hp Hw; apply plain_strip in Hp; unfold wt in Hw;
-    cbn [wtb] in Hw; cbn [domb rmv]; destruct (strip_named ty) eqn:Hs; try discriminate Hw; try discriminate Hp;
+  intros Hnt v. induction v using gval_ind'; intros ty Hp Hw; apply plain_strip in Hp; unfold wt in Hw;
+    cbn [wtb] in Hw; cbn [domb rmv]; rewrite (no_tr_dom_entry A _ _ Hnt); cbn [andb];
+    destruct (strip_named ty) eqn:Hs; try discriminate Hw; try discriminate Hp;
     try (split; reflexivity).
   - (* slice *)
     cbn [plain_type] in Hp. rewrite forallb_forall in Hw.
@@ -2681,9 +3707,9 @@ Proof.
     apply andb_true_iff in Hw. destruct Hw as [Hw _]. apply andb_true_iff in Hw. destruct Hw as [_ Hw].
     rewrite forallb_forall in Hw. rewrite Forall_forall in H.
     split; apply forallb_forall; intros kv Hkv; specialize (Hw kv Hkv); apply andb_true_iff in Hw;
-      destruct (H kv Hkv) as [_ Hv]; apply (Hv g2 Hpv); apply Hw.
+      destruct (H kv Hkv) as [_ Hv]; rewrite ?(no_tr_key_dom A _ _ Hnt); cbn [andb]; apply (Hv g2 Hpv); apply Hw.
   - (* pointer *)
-    cbn [plain_type] in Hp. apply (IHv g Hp Hw).
+    cbn [plain_type] in Hp. destruct (IHv g Hp Hw) as [H1 H2]. rewrite H1, (no_tr_null_form A _ _ Hnt). auto.
 Qed.
 
 Theorem roundtrip_stage1 : forall E mode t v f ts,
@@ -2691,7 +3717,7 @@ Theorem roundtrip_stage1 : forall E mode t v f ts,
   exists f' v', unmarshal E (Atlas [] mode) f' t (zero 50 E t) ts = UOk v' [] /\ req E (Atlas [] mode) t v v'.
 Proof.
   intros E mode t v f ts Hp Hw H.
-  destruct (plain_dom E (Atlas [] mode) v t Hp Hw) as [Hd _].
+  destruct (plain_dom E (Atlas [] mode) (no_tr_empty mode) v t Hp Hw) as [Hd _].
   destruct (roundtrip_general E (Atlas [] mode) t v f ts eq_refl Hw Hd H) as (v' & Hr & _ & [F HF] & _).
   exists F, v'. split; [|exact Hr]. specialize (HF F [] (le_n _)). rewrite app_nil_r in HF. exact HF.
 Qed.
@@ -2704,7 +3730,7 @@ Theorem roundtrip_stage1_remarshal : forall E mode t v f ts,
     forall f'', (f <= f'')%nat -> marshal (Atlas [] mode) f'' t v' = MOk ts.
 Proof.
   intros E mode t v f ts Hp Hw H.
-  destruct (plain_dom E (Atlas [] mode) v t Hp Hw) as [Hd Hrv].
+  destruct (plain_dom E (Atlas [] mode) (no_tr_empty mode) v t Hp Hw) as [Hd Hrv].
   destruct (roundtrip_general E (Atlas [] mode) t v f ts eq_refl Hw Hd H) as (v' & Hr & _ & [F HF] & Hm).
   exists F, v'. split; [|split; [exact Hr | apply Hm; [reflexivity | exact Hrv]]].
   specialize (HF F [] (le_n _)). rewrite app_nil_r in HF. exact HF.
@@ -2723,25 +3749,28 @@ Fixpoint no_any (v : gval) : bool :=
   | _ => true
   end.
 
-Lemma no_any_dom E A : forall v t, no_any v = true -> domb E A t v = true /\ rmv v = true.
+Lemma no_any_dom E A : no_tr A -> forall v t, no_any v = true -> domb E A t v = true /\ rmv v = true.
 Proof.
-  intros v. induction v using gval_ind'; intros ty Hn; cbn [domb rmv]; try (destruct (strip_named ty); split; reflexivity).
+  intros Hnt v. induction v using gval_ind'; intros ty Hn; cbn [domb rmv];
+    try (rewrite (no_tr_dom_entry A _ _ Hnt); cbn [andb]; destruct (strip_named ty); split; reflexivity).
   - cbn [no_any] in Hn. rewrite forallb_forall in Hn. rewrite Forall_forall in H. split.
-    + destruct (strip_named ty); try reflexivity. apply forallb_forall. intros x Hx. apply (H x Hx). apply Hn. exact Hx.
+    + rewrite (no_tr_dom_entry A _ _ Hnt); cbn [andb]. destruct (strip_named ty); try reflexivity. apply forallb_forall. intros x Hx. apply (H x Hx). apply Hn. exact Hx.
     + apply forallb_forall. intros x Hx. apply (H x Hx GBool). apply Hn. exact Hx.
   - cbn [no_any] in Hn. rewrite forallb_forall in Hn. rewrite Forall_forall in H. split.
-    + destruct (strip_named ty); try reflexivity. apply forallb_forall. intros x Hx. apply (H x Hx). apply Hn. exact Hx.
+    + rewrite (no_tr_dom_entry A _ _ Hnt); cbn [andb]. destruct (strip_named ty); try reflexivity. apply forallb_forall. intros x Hx. apply (H x Hx). apply Hn. exact Hx.
     + apply forallb_forall. intros x Hx. apply (H x Hx GBool). apply Hn. exact Hx.
   - cbn [no_any] in Hn. rewrite forallb_forall in Hn. rewrite Forall_forall in H. split.
-    + destruct (strip_named ty); try reflexivity. apply forallb_forall. intros kv Hkv.
+    + rewrite (no_tr_dom_entry A _ _ Hnt); cbn [andb]. destruct (strip_named ty); try reflexivity. apply forallb_forall. intros kv Hkv.
+      rewrite (no_tr_key_dom A _ _ Hnt). cbn [andb].
       destruct (H kv Hkv) as [_ Hv]. apply Hv. apply Hn. exact Hkv.
     + apply forallb_forall. intros kv Hkv. destruct (H kv Hkv) as [_ Hv]. apply (Hv GBool). apply Hn. exact Hkv.
   - cbn [no_any] in Hn. split.
-    + destruct (strip_named ty); try reflexivity. apply IHv. exact Hn.
+    + rewrite (no_tr_dom_entry A _ _ Hnt); cbn [andb]. destruct (strip_named ty); try reflexivity. rewrite (no_tr_null_form A _ _ Hnt), andb_true_r. apply IHv. exact Hn.
     + apply (IHv GBool). exact Hn.
   - discriminate Hn.
   - cbn [no_any] in Hn. rewrite forallb_forall in Hn. rewrite Forall_forall in H. split.
-    + change (domb E A ty (VStruct l) = true). rewrite dom_struct_eq. destruct (strip_named ty); try reflexivity.
+    + change (domb E A ty (VStruct l) = true). rewrite dom_struct_eq, (no_tr_dom_entry A _ _ Hnt). cbn [andb].
+      destruct (strip_named ty); try reflexivity.
       destruct (env_fields E id) as [fts|]; [|reflexivity].
       revert fts. induction l as [|x l IH]; intros [|ft fts]; try reflexivity. cbn [dom_fields].
       apply andb_true_iff. split.
@@ -2751,23 +3780,24 @@ Proof.
 Qed.
 
 Theorem roundtrip_stage2 : forall E A t v f ts,
-  atlas_wf E A = true -> wt E A t v -> no_any v = true -> marshal A f t v = MOk ts ->
+  atlas_wf E A = true -> struct_only A = true -> wt E A t v -> no_any v = true -> marshal A f t v = MOk ts ->
   exists f' v', unmarshal E A f' t (zero 50 E t) ts = UOk v' [] /\ req E A t v v'.
 Proof.
-  intros E A t v f ts Hwf Hw Hn H.
-  destruct (no_any_dom E A v t Hn) as [Hd _].
+  intros E A t v f ts Hwf Hso Hw Hn H.
+  destruct (no_any_dom E A (no_tr_struct_only A Hso) v t Hn) as [Hd _].
   destruct (roundtrip_general E A t v f ts Hwf Hw Hd H) as (v' & Hr & _ & [F HF] & _).
   exists F, v'. split; [|exact Hr]. specialize (HF F [] (le_n _)). rewrite app_nil_r in HF. exact HF.
 Qed.
 Print Assumptions roundtrip_stage2.
 
 Theorem roundtrip_stage2_remarshal : forall E A t v f ts,
-  atlas_wf E A = true -> omit_ok A = true -> wt E A t v -> no_any v = true -> marshal A f t v = MOk ts ->
+  atlas_wf E A = true -> struct_only A = true -> omit_ok A = true -> wt E A t v -> no_any v = true ->
+  marshal A f t v = MOk ts ->
   exists f' v', unmarshal E A f' t (zero 50 E t) ts = UOk v' [] /\ req E A t v v' /\
     forall f'', (f <= f'')%nat -> marshal A f'' t v' = MOk ts.
 Proof.
-  intros E A t v f ts Hwf Ho Hw Hn H.
-  destruct (no_any_dom E A v t Hn) as [Hd Hrv].
+  intros E A t v f ts Hwf Hso Ho Hw Hn H.
+  destruct (no_any_dom E A (no_tr_struct_only A Hso) v t Hn) as [Hd Hrv].
   destruct (roundtrip_general E A t v f ts Hwf Hw Hd H) as (v' & Hr & _ & [F HF] & Hm).
   exists F, v'. split; [|split; [exact Hr | apply Hm; assumption]].
   specialize (HF F [] (le_n _)). rewrite app_nil_r in HF. exact HF.
@@ -2912,9 +3942,186 @@ Example ex_conclusion :
   marshal ex_A 30 (GStruct 1) ex_v' = MOk ex_ts.
 Proof. vm_compute. repeat split; reflexivity. Qed.
 
+(* ---------- stage 4: transforms, keyed unions, map morphisms ------------------------- *)
+
+(* the modelled transforms are inverted by their backward functions on [tr_dom] *)
+Print Assumptions tr_roundtrip.
+
+Lemma tr_fwd_shape kind v w : tr_fwd kind v = Some w -> (exists s, v = GVStr s) \/ (exists fs, v = VStruct fs).
+Proof. unfold tr_fwd. kind_cases kind; intros H; try discriminate H; shape H; eauto. Qed.
+
+(* round-trip equality at a transformed type whose serial form is a scalar (kinds 1, 2, 3, 6, 8):
+   plain equality *)
+Lemma req_transform_atom_case E A t e kind wire v v' w e0 kind0 wire0 w0 w0' :
+  atlas_get A t = Some e -> ae_kind e = ETransform kind wire -> not_transform_type A wire = true ->
+  tr_fwd kind v = Some w -> atom w = true ->
+  atlas_get A t = Some e0 -> ae_kind e0 = ETransform kind0 wire0 ->
+  tr_dom kind0 v = true -> tr_dom kind0 v' = true ->
+  tr_fwd kind0 v = Some w0 -> tr_fwd kind0 v' = Some w0' -> req E A wire0 w0 w0' -> v' = v.
+Proof.
+  intros Hg Hk Hnt Hf Ha Hg0 Hk0 Hd Hd' Hf0 Hf0' Hr.
+  rewrite Hg in Hg0. inversion Hg0; subst e0. rewrite Hk in Hk0. inversion Hk0; subst kind0 wire0.
+  rewrite Hf in Hf0. inversion Hf0; subst w0.
+  rewrite (req_atom_inv E A wire w w0' Hnt Ha Hr) in Hf0'. symmetry. eapply tr_fwd_inj; eassumption.
+Qed.
+
+Theorem req_transform_atom : forall E A t e kind wire v v' w,
+  atlas_get A t = Some e -> ae_kind e = ETransform kind wire -> not_transform_type A wire = true ->
+  tr_fwd kind v = Some w -> atom w = true -> req E A t v v' -> v' = v.
+Proof.
+  intros E A t e kind wire v v' w Hg Hk Hnt Hf Ha Hr.
+  destruct (tr_fwd_shape kind v w Hf) as [[s ->] | [fs ->]]; inversion Hr; subst; try reflexivity; try discriminate;
+    try match goal with
+        | G0 : atlas_get A t = Some ?e0, K0 : ae_kind ?e0 = ETransform ?k0 ?w0, D1 : tr_dom ?k0 _ = true,
+          D2 : tr_dom ?k0 _ = true, F1 : tr_fwd ?k0 _ = Some _, F2 : tr_fwd ?k0 _ = Some _, R : req E A ?w0 _ _ |- _ =>
+            exact (req_transform_atom_case E A t e kind wire _ _ w e0 k0 w0 _ _ Hg Hk Hnt Hf Ha G0 K0 D1 D2 F1 F2 R)
+        end.
+  match goal with
+  | H1 : atlas_get A t = Some ?e0, H2 : ae_kind ?e0 = EStruct _ |- _ =>
+      rewrite Hg in H1; inversion H1; subst; rewrite Hk in H2; discriminate H2
+  end.
+Qed.
+Print Assumptions req_transform_atom.
+
+(* An atlas with every kind of entry:
+     type 10  MyStr (named string)        transform kind 1 -> string, tag 50
+     struct 2 {A, B string}               transform kind 6 -> string   (used as a map key type)
+     struct 3 {X, Y uint8}                transform kind 3 -> []byte, tag 51
+     struct 4 {V interface{}}             transform kind 9 -> interface{}, tag 60   (the D20 shape)
+     struct 5 {V string}                  transform kind 5 -> struct 6 {W string}
+     struct 7 {B []byte}                  transform kind 8 -> []byte
+     struct 8 {Ok bool}                   struct map, tag 9
+     iface 20                             keyed union  "p" -> struct 3, "s" -> struct 8
+     type 30  map[string]bool (named)     map morphism, RFC 7049 key order
+     struct 1                             struct map over fields of all these types *)
+Definition s4_E : tenv :=
+  [(1, [GNamed 10 GStr; GMap (GStruct 2) (GNum IInt); GStruct 3; GStruct 4; GStruct 5; GIface 20;
+        GNamed 30 (GMap GStr GBool); GPtr (GStruct 7)]);
+   (2, [GStr; GStr]); (3, [GNum U8; GNum U8]); (4, [GAny]); (5, [GStr]); (6, [GStr]); (7, [GBytes]); (8, [GBool])].
+Definition s4_A : atlas :=
+  Atlas [AE (GStruct 1) None (EStruct [FE [110] [0%nat] (GNamed 10 GStr) false false;
+                                       FE [109] [1%nat] (GMap (GStruct 2) (GNum IInt)) false false;
+                                       FE [112] [2%nat] (GStruct 3) false false;
+                                       FE [97] [3%nat] (GStruct 4) false false;
+                                       FE [119] [4%nat] (GStruct 5) false false;
+                                       FE [117] [5%nat] (GIface 20) false false;
+                                       FE [111] [6%nat] (GNamed 30 (GMap GStr GBool)) true false;
+                                       FE [98] [7%nat] (GPtr (GStruct 7)) false false]);
+         AE (GNamed 10 GStr) (Some 50) (ETransform 1 GStr);
+         AE (GStruct 2) None (ETransform 6 GStr);
+         AE (GStruct 3) (Some 51) (ETransform 3 GBytes);
+         AE (GStruct 4) (Some 60) (ETransform 9 GAny);
+         AE (GStruct 5) None (ETransform 5 (GStruct 6));
+         AE (GStruct 6) None (EStruct [FE [119] [0%nat] GStr false false]);
+         AE (GStruct 7) None (ETransform 8 GBytes);
+         AE (GStruct 8) (Some 9) (EStruct [FE [111; 107] [0%nat] GBool false false]);
+         AE (GIface 20) None (EUnion [([112], GStruct 3); ([115], GStruct 8)]);
+         AE (GNamed 30 (GMap GStr GBool)) None (EMapMorphism 2)] 0.
+Definition s4_v : gval :=
+  VStruct [GVStr [104; 105];
+           GVMap (Some [(VStruct [GVStr [98]; GVStr [58; 120]], VNum 2); (VStruct [GVStr [97]; GVStr []], VNum 1)]);
+           VStruct [VNum 7; VNum 255];
+           VStruct [VAny (Some (GSlice GAny, VSlice (Some [VAny (Some (GStruct 8, VStruct [GVBool true]));
+                                                            VAny (Some (GNum IInt, VNum 3))])))];
+           VStruct [GVStr [119]];
+           VAny (Some (GStruct 8, VStruct [GVBool false]));
+           GVMap (Some [(GVStr [98; 98], GVBool true); (GVStr [99], GVBool false)]);
+           VPtr (Some (VStruct [VBytes (Some [1])]))].
+(* what comes back: the two maps in sorted key order *)
+Definition s4_v' : gval :=
+  VStruct [GVStr [104; 105];
+           GVMap (Some [(VStruct [GVStr [97]; GVStr []], VNum 1); (VStruct [GVStr [98]; GVStr [58; 120]], VNum 2)]);
+           VStruct [VNum 7; VNum 255];
+           VStruct [VAny (Some (GSlice GAny, VSlice (Some [VAny (Some (GStruct 8, VStruct [GVBool true]));
+                                                            VAny (Some (GNum IInt, VNum 3))])))];
+           VStruct [GVStr [119]];
+           VAny (Some (GStruct 8, VStruct [GVBool false]));
+           GVMap (Some [(GVStr [99], GVBool false); (GVStr [98; 98], GVBool true)]);
+           VPtr (Some (VStruct [VBytes (Some [1])]))].
+Definition s4_ts : list token :=
+  [Tok (MapOpen 8) None;
+   Tok (Str [110]) None; Tok (Str [110; 58; 104; 105]) (Some 50);
+   Tok (Str [109]) None; Tok (MapOpen 2) None; Tok (Str [97; 58]) None; Tok (Int 1) None;
+                         Tok (Str [98; 58; 58; 120]) None; Tok (Int 2) None; Tok MapClose None;
+   Tok (Str [112]) None; Tok (Byt [7; 255]) (Some 51);
+   Tok (Str [97]) None; Tok (ArrOpen 2) (Some 60);
+                           Tok (MapOpen 1) (Some 9); Tok (Str [111; 107]) None; Tok (Bool true) None; Tok MapClose None;
+                           Tok (Int 3) None; Tok ArrClose None;
+   Tok (Str [119]) None; Tok (MapOpen 1) None; Tok (Str [119]) None; Tok (Str [119]) None; Tok MapClose None;
+   Tok (Str [117]) None; Tok (MapOpen 1) None; Tok (Str [115]) None;
+                           Tok (MapOpen 1) (Some 9); Tok (Str [111; 107]) None; Tok (Bool false) None; Tok MapClose None;
+                         Tok MapClose None;
+   Tok (Str [111]) None; Tok (MapOpen 2) None; Tok (Str [99]) None; Tok (Bool false) None;
+                         Tok (Str [98; 98]) None; Tok (Bool true) None; Tok MapClose None;
+   Tok (Str [98]) None; Tok (Byt [1]) None;
+   Tok MapClose None].
+
+Example s4_hypotheses :
+  atlas_wf s4_E s4_A = true /\ omit_ok s4_A = true /\ wtb s4_E s4_A (GStruct 1) s4_v = true /\
+  domb s4_E s4_A (GStruct 1) s4_v = true /\ rmv s4_v = true.
+Proof. vm_compute. repeat split; reflexivity. Qed.
+
+Example s4_conclusion :
+  marshal s4_A 40 (GStruct 1) s4_v = MOk s4_ts /\
+  unmarshal s4_E s4_A 60 (GStruct 1) (zero 50 s4_E (GStruct 1)) s4_ts = UOk s4_v' [] /\
+  marshal s4_A 40 (GStruct 1) s4_v' = MOk s4_ts.
+Proof. vm_compute. repeat split; reflexivity. Qed.
+
+(* the shape of defect D20, repaired: a tagged transform whose serial form is interface{},
+   inside an untyped slot; the tag selects the entry, the entry strips its own tag *)
+Example s4_tagged_any_transform :
+  let v := VStruct [VAny (Some (GMap GStr GAny, GVMap (Some [(GVStr [107], VAny (Some (GStr, GVStr [118])))])))] in
+  let ts := [Tok (MapOpen 1) (Some 60); Tok (Str [107]) None; Tok (Str [118]) None; Tok MapClose None] in
+  wtb s4_E s4_A (GStruct 4) v = true /\ domb s4_E s4_A (GStruct 4) v = true /\
+  marshal s4_A 40 GAny (VAny (Some (GStruct 4, v))) = MOk ts /\
+  unmarshal s4_E s4_A 60 GAny (VAny None) ts = UOk (VAny (Some (GStruct 4, v))) [].
+Proof. vm_compute. repeat split; reflexivity. Qed.
+
+(* ---------- outside the stage-4 domain ------------------------------------------------ *)
+
+(* (1) a token carries ONE tag: the marshaller's transform machine overwrites the tag of the
+   first token of the serial form.  A tagged transform with an untyped serial form holding a
+   value of a tagged type loses that type: it comes back as map[string]interface{}.  This is
+   what [slot_untagged] excludes; it is a limitation of the Go code (tok.Token has a single
+   Tag field), not of the model. *)
+Example tagged_transform_of_tagged_content_refuted :
+  let v := VStruct [VAny (Some (GStruct 8, VStruct [GVBool true]))] in
+  atlas_wf s4_E s4_A = true /\ wtb s4_E s4_A (GStruct 4) v = true /\ domb s4_E s4_A (GStruct 4) v = false /\
+  marshal s4_A 40 (GStruct 4) v =
+    MOk [Tok (MapOpen 1) (Some 60); Tok (Str [111; 107]) None; Tok (Bool true) None; Tok MapClose None] /\
+  unmarshal s4_E s4_A 60 (GStruct 4) (zero 50 s4_E (GStruct 4))
+    [Tok (MapOpen 1) (Some 60); Tok (Str [111; 107]) None; Tok (Bool true) None; Tok MapClose None] =
+    UOk (VStruct [VAny (Some (GMap GStr GAny, GVMap (Some [(GVStr [111; 107], VAny (Some (GBool, GVBool true)))])))]) [].
+Proof. vm_compute. repeat split; reflexivity. Qed.
+
+(* (2) null has no shape, also through a transform: a pointer to struct{B []byte}{nil} is
+   emitted as Null and comes back as a nil pointer ([null_form]); the value itself, not
+   behind a pointer, round-trips *)
+Example pointer_to_null_form_refuted :
+  let v := VStruct [VBytes None] in
+  wtb s4_E s4_A (GPtr (GStruct 7)) (VPtr (Some v)) = true /\ domb s4_E s4_A (GPtr (GStruct 7)) (VPtr (Some v)) = false /\
+  marshal s4_A 40 (GPtr (GStruct 7)) (VPtr (Some v)) = MOk [Tok Null None] /\
+  unmarshal s4_E s4_A 60 (GPtr (GStruct 7)) (VPtr None) [Tok Null None] = UOk (VPtr None) [] /\
+  domb s4_E s4_A (GStruct 7) v = true /\
+  unmarshal s4_E s4_A 60 (GStruct 7) (zero 50 s4_E (GStruct 7)) [Tok Null None] = UOk v [].
+Proof. vm_compute. repeat split; reflexivity. Qed.
+
+(* (3) outside [tr_dom] the user's functions are not inverse to each other: kind 6 with a
+   ':' in the first component *)
+Example transform_outside_domain_refuted :
+  let v := VStruct [GVStr [97; 58; 98]; GVStr [99]] in
+  tr_dom 6 v = false /\ wtb s4_E s4_A (GStruct 2) v = true /\ domb s4_E s4_A (GStruct 2) v = false /\
+  marshal s4_A 40 (GStruct 2) v = MOk [Tok (Str [97; 58; 98; 58; 99]) None] /\
+  unmarshal s4_E s4_A 60 (GStruct 2) (zero 50 s4_E (GStruct 2)) [Tok (Str [97; 58; 98; 58; 99]) None] =
+    UOk (VStruct [GVStr [97]; GVStr [98; 58; 99]]) [].
+Proof. vm_compute. repeat split; reflexivity. Qed.
+
 (* ====================================================================== *)
 (* The most general statements proved                                        *)
 (* ====================================================================== *)
+
+(* [atlas_wf] allows struct maps, transforms (kinds 1..9), keyed unions and map morphisms;
+   [wt], [domb], [req] are described at the top of the file. *)
 
 (* Marshalling a well-typed value of the domain and unmarshalling the tokens
    into the zero value of the same type, with the same atlas, consumes all the
